@@ -8,6 +8,14 @@
        freedom of DivUnchecked 0/0 and of hint outputs is explicit), makes every assertion of the
        program true, and gives every exposed variable the value of its public output wire.
 
+     compile_complete : conversely, whenever the documented meaning admits a value trace from given
+       inputs (every assertion holds; the free results of DivUnchecked 0/0 and of hints chosen
+       arbitrarily) and the builder did not panic, the emitted system has a satisfying assignment
+       with these inputs, realising exactly this trace, whose public output wires carry the values
+       of the exposed variables.  Frame argument over wire scopes ([below], [wfst], [agree]):
+       every builder function has an x-lemma (the assignment extends on the new wires); the
+       values are then read off the soundness lemmas, [sem_det] for the deterministic calls.
+
    Structure: [ev] evaluates a linear expression; [ev_merge] is the value of builder.add's merge;
    every builder function has a lemma of the form pstep / mstep st st' P: the system of st' extends
    the one of st, the boolean marks stay justified ([marks_ok]: every marked expression is boolean
@@ -948,6 +956,1031 @@ Proof.
   - destruct rest; [intros _; apply app_nil_r|discriminate].
   - intros H. apply andb_true_iff in H. destruct H as [H1 H2]. exists (firstn (nres (fst o)) rest).
     split; [apply semb_sound; exact H1|]. apply IH in H2. rewrite <- app_assoc, firstn_skipn in H2. exact H2.
+Qed.
+
+(* ================================================================ completeness half
+   Whenever the documented meaning admits a value trace, the emitted system has a satisfying
+   assignment realising it.  Frame argument: every linear expression mentions only wires below
+   [b_next], so an assignment can be extended on the new wires without disturbing what was built. *)
+Definition below (n : nat) (l : lexp) : Prop := forall t, In t l -> snd t < n.
+Definition instr_below (n : nat) (i : instr F) : Prop :=
+  match i with IR1C _ _ l r o => below n l /\ below n r /\ below n o | _ => True end.
+Definition wfst (st : bstate) : Prop := 0 < b_next F st /\ Forall (instr_below (b_next F st)) (b_instrs F st).
+Definition agree (n : nat) (w w' : nat -> F) : Prop := forall x, x < n -> w x = w' x.
+
+Lemma below_mono n m l : n <= m -> below n l -> below m l.
+Proof. intros L B t IN. specialize (B t IN). lia. Qed.
+Lemma agree_refl n w : agree n w w. Proof. intros x _. reflexivity. Qed.
+Lemma agree_trans n m w1 w2 w3 : n <= m -> agree n w1 w2 -> agree m w2 w3 -> agree n w1 w3.
+Proof. intros L A B x H. rewrite (A x H). apply B. lia. Qed.
+Lemma agree_mono n m w w' : n <= m -> agree m w w' -> agree n w w'.
+Proof. intros L A x H. apply A. lia. Qed.
+
+Lemma ev_agree n w w' l : below n l -> agree n w w' -> ev w l = ev w' l.
+Proof.
+  induction l as [|[c x] l IH]; intros B A; [reflexivity|]. rewrite !ev_cons.
+  rewrite (A x (B (c, x) (or_introl eq_refl))), IH; [reflexivity| |exact A]. intros t IN. apply B. right. exact IN.
+Qed.
+
+Lemma good_agree st w w' : wfst st -> agree (b_next F st) w w' -> good w st -> good w' st.
+Proof.
+  intros [P W] A [G0 G]. split; [rewrite <- (A O P); exact G0|].
+  apply Forall_forall. intros i IN. pose proof (proj1 (Forall_forall _ _) W i IN) as Wi. pose proof (proj1 (Forall_forall _ _) G i IN) as Gi.
+  destruct i; cbn in *; auto. destruct Wi as (B1 & B2 & B3).
+  rewrite <- (ev_agree _ w w' l B1 A), <- (ev_agree _ w w' r B2 A), <- (ev_agree _ w w' o B3 A). exact Gi.
+Qed.
+
+Lemma wfst_mono_instrs n m is : n <= m -> Forall (instr_below n) is -> Forall (instr_below m) is.
+Proof.
+  intros L. apply Forall_impl. intros i. destruct i; cbn; auto. intros (B1 & B2 & B3).
+  repeat split; eapply below_mono; eassumption.
+Qed.
+
+Lemma below_cle n c : 0 < n -> below n (cle c).
+Proof. intros P t [<-|[]]. exact P. Qed.
+Lemma below_scale n l k : below n l -> below n (scale l k).
+Proof. intros B t IN. unfold BuilderR1CS.scale in IN. apply in_map_iff in IN. destruct IN as (u & <- & IU). apply (B u IU). Qed.
+Lemma below_neg n l : below n l -> below n (neg_le l).
+Proof. intros B t IN. unfold BuilderR1CS.neg_le in IN. apply in_map_iff in IN. destruct IN as (u & <- & IU). apply (B u IU). Qed.
+Lemma below_app n a b : below n a -> below n b -> below n (a ++ b).
+Proof. intros A B t IN. apply in_app_or in IN. destruct IN; auto. Qed.
+
+Lemma below_ins_term n c x l : x < n -> below n l -> below n (ins_term c x l).
+Proof.
+  intros X. induction l as [|[c' x'] l IH]; cbn [BuilderR1CS.ins_term]; intros B.
+  - intros t [<-|[]]. exact X.
+  - destruct (Nat.ltb x x'); [intros t [<-|IN]; [exact X|apply B; exact IN]|].
+    destruct (Nat.eqb x x').
+    + intros t [<-|IN]; [apply (B (c', x')); left; reflexivity|apply B; right; exact IN].
+    + intros t [<-|IN]; [apply (B (c', x')); left; reflexivity|]. apply IH; [|exact IN]. intros u IU. apply B. right. exact IU.
+Qed.
+
+Lemma below_ins_le n ng l : below n l -> forall acc, below n acc -> below n (ins_le ng l acc).
+Proof.
+  unfold BuilderR1CS.ins_le. induction l as [|t l IH]; intros B acc A; cbn [fold_left]; [exact A|].
+  apply IH; [intros u IU; apply B; right; exact IU|]. destruct (feqb (fst t) 0); [exact A|].
+  apply below_ins_term; [apply (B t); left; reflexivity|exact A].
+Qed.
+
+Lemma below_merge n vars sb : 0 < n -> Forall (below n) vars -> below n (merge_les vars sb).
+Proof.
+  intros P BV. unfold BuilderR1CS.merge_les.
+  set (acc := match vars with [] => [] | v :: vs => fold_left (fun a l => ins_le sb l a) vs (ins_le false v []) end).
+  assert (BA : below n acc).
+  { subst acc. destruct vars as [|v vs]; [intros t []|]. pose proof (Forall_inv BV) as Bv. pose proof (Forall_inv_tail BV) as Bvs.
+    assert (G : forall a0, below n a0 -> below n (fold_left (fun a l => ins_le sb l a) vs a0)).
+    { clear Bv BV. induction vs as [|u vs IH]; intros a0 A0; cbn [fold_left]; [exact A0|].
+      apply IH; [exact (Forall_inv_tail Bvs)|]. apply below_ins_le; [exact (Forall_inv Bvs)|exact A0]. }
+    apply G. apply below_ins_le; [exact Bv|intros t []]. }
+  assert (BF : below n (filter (fun t : term F => negb (feqb (fst t) 0)) acc)).
+  { intros t IN. apply filter_In in IN. apply BA. apply IN. }
+  destruct (filter _ acc); [apply below_cle; exact P|exact BF].
+Qed.
+
+(* one builder action: under the (no panic, well-scoped) hypotheses the state stays well-scoped, the
+   result is in scope, and every satisfying assignment meeting PRE extends on the new wires to a
+   satisfying assignment whose value for the result meets VAL *)
+Definition cstep (st st' : bstate) (r : lexp) (PRE : (nat -> F) -> Prop) (VAL : (nat -> F) -> F -> Prop) : Prop :=
+  b_err F st' = false -> wfst st ->
+  wfst st' /\ b_next F st <= b_next F st' /\ below (b_next F st') r /\
+  forall w, good w st -> PRE w -> exists w', agree (b_next F st) w w' /\ good w' st' /\ VAL w (ev w' r).
+
+Definition upd (w : nat -> F) (x : nat) (v : F) : nat -> F := fun y => if Nat.eqb y x then v else w y.
+Lemma upd_same w x v : upd w x v x = v. Proof. unfold upd. rewrite Nat.eqb_refl. reflexivity. Qed.
+Lemma upd_agree w x v : agree x w (upd w x v).
+Proof. intros y H. unfold upd. destruct (Nat.eqb y x) eqn:E; [apply Nat.eqb_eq in E; lia|reflexivity]. Qed.
+
+Lemma wfst_row st l r o : wfst st -> below (b_next F st) l -> below (b_next F st) r -> below (b_next F st) o -> wfst (b_row st l r o).
+Proof.
+  intros [P W] B1 B2 B3. unfold wfst, BuilderR1CS.b_row. destruct (Nat.ltb _ _); cbn [b_next b_instrs]; (split; [exact P|]); constructor; cbn; auto.
+Qed.
+Lemma row_next st l r o : b_next F (b_row st l r o) = b_next F st.
+Proof. unfold BuilderR1CS.b_row. destruct (Nat.ltb _ _); reflexivity. Qed.
+
+Lemma newvar_c st r st' : b_newvar st = (r, st') -> wfst st ->
+  wfst st' /\ b_next F st' = S (b_next F st) /\ r = [(1, b_next F st)] /\ b_err F st' = b_err F st /\
+  forall w, good w st' <-> good w st.
+Proof.
+  unfold BuilderR1CS.b_newvar. intros [= <- <-] [P W]. cbn [b_next b_instrs b_err].
+  split; [split; [cbn; lia|cbn; eapply wfst_mono_instrs; [|exact W]; lia]|].
+  split; [reflexivity|]. split; [reflexivity|]. split; [reflexivity|].
+  intros w. unfold good. cbn [b_instrs]. tauto.
+Qed.
+
+Lemma ev_var w x : ev w [(1, x)] = w x.
+Proof. rewrite ev_cons, ev_nil. ring. Qed.
+Lemma below_var n x : x < n -> below n [(1, x)].
+Proof. intros H t [<-|[]]. exact H. Qed.
+
+Lemma compress_c st l r st' : b_compress st l = (r, st') -> below (b_next F st) l ->
+  cstep st st' r (fun _ => True) (fun w x => x = ev w l).
+Proof.
+  unfold BuilderR1CS.b_compress. destruct (_ || _).
+  - intros [= <- <-] B _ WF. repeat split; auto; try apply WF. intros w G _. exists w. repeat split; auto; apply agree_refl || apply G.
+  - destruct (b_newvar st) as [t st1] eqn:N. intros [= <- <-] B E WF. rewrite row_err in E.
+    destruct (newvar_c _ _ _ N WF) as (WF1 & NX & -> & E1 & GG). rewrite row_next, NX.
+    assert (B1 : below (b_next F st1) l) by (rewrite NX; eapply below_mono; [|exact B]; lia).
+    assert (BT : below (b_next F st1) [(1, b_next F st)]) by (rewrite NX; apply below_var; lia).
+    split; [apply wfst_row; auto; apply below_cle; apply WF1|]. split; [lia|]. split; [rewrite <- NX; exact BT|].
+    intros w G _. exists (upd w (b_next F st) (ev w l)). split; [apply upd_agree|].
+    assert (EL : ev (upd w (b_next F st) (ev w l)) l = ev w l) by (symmetry; eapply ev_agree; [exact B|apply upd_agree]).
+    split; [|rewrite ev_var, upd_same; reflexivity].
+    apply good_row. split.
+    + apply GG. eapply good_agree; [exact WF|apply upd_agree|exact G].
+    + unfold BuilderR1CS.le_one. rewrite ev_cle, ev_var, upd_same, EL; [ring|]. unfold upd. destruct (Nat.eqb 0 (b_next F st)) eqn:Z; [apply Nat.eqb_eq in Z; destruct WF; lia|apply G].
+Qed.
+
+(* extendability: the values then follow from the soundness lemmas applied to the extended assignment *)
+Definition xstep (st st' : bstate) (P : (nat -> F) -> Prop) : Prop :=
+  (b_err F st' = false -> b_err F st = false) /\
+  (b_err F st' = false -> wfst st ->
+     wfst st' /\ b_next F st <= b_next F st' /\
+     forall w, good w st -> P w -> exists w', agree (b_next F st) w w' /\ good w' st').
+
+Lemma x_refl st (P : (nat -> F) -> Prop) : xstep st st P.
+Proof. split; [auto|]. intros _ WF. split; [exact WF|split; [lia|]]. intros w G _. exists w. split; [apply agree_refl|exact G]. Qed.
+
+Lemma x_err st (P : (nat -> F) -> Prop) : xstep st (set_err st) P.
+Proof. split; intros E; discriminate E. Qed.
+
+Lemma x_trans st st1 st2 (P P2 : (nat -> F) -> Prop) :
+  xstep st st1 P -> xstep st1 st2 P2 ->
+  (forall w w1, good w st -> P w -> agree (b_next F st) w w1 -> good w1 st1 -> P2 w1) -> xstep st st2 P.
+Proof.
+  intros [E1 X1] [E2 X2] H. split; [auto|]. intros E WF.
+  destruct (X1 (E2 E) WF) as (WF1 & L1 & R1). destruct (X2 E WF1) as (WF2 & L2 & R2).
+  split; [exact WF2|split; [lia|]]. intros w G Pw. destruct (R1 w G Pw) as (w1 & A1 & G1).
+  destruct (R2 w1 G1 (H w w1 G Pw A1 G1)) as (w2 & A2 & G2). exists w2. split; [eapply agree_trans; eassumption|exact G2].
+Qed.
+
+Lemma x_weaken st st' (P Q : (nat -> F) -> Prop) : xstep st st' P -> (forall w, good w st -> Q w -> P w) -> xstep st st' Q.
+Proof.
+  intros [E X] H. split; [exact E|]. intros E' WF. destruct (X E' WF) as (WF' & L & R). split; [exact WF'|split; [exact L|]].
+  intros w G Qw. apply R; [exact G|apply H; assumption].
+Qed.
+
+Lemma x_row st l r o : below (b_next F st) l -> below (b_next F st) r -> below (b_next F st) o ->
+  xstep st (b_row st l r o) (fun w => ev w l * ev w r = ev w o).
+Proof.
+  intros B1 B2 B3. split; [rewrite row_err; auto|]. intros _ WF. split; [apply wfst_row; assumption|]. split; [rewrite row_next; lia|].
+  intros w G Eq. exists w. split; [apply agree_refl|]. apply good_row. split; assumption.
+Qed.
+
+(* a fresh wire can be given any value *)
+Lemma newvar_x st r st' v : b_newvar st = (r, st') -> wfst st ->
+  forall w, good w st -> exists w', agree (b_next F st) w w' /\ good w' st' /\ ev w' r = v.
+Proof.
+  intros N WF w G. destruct (newvar_c _ _ _ N WF) as (WF1 & NX & -> & E1 & GG).
+  exists (upd w (b_next F st) v). split; [apply upd_agree|]. split; [|rewrite ev_var, upd_same; reflexivity].
+  apply GG. eapply good_agree; [exact WF|apply upd_agree|exact G].
+Qed.
+
+Lemma compress_x st l r st' : b_compress st l = (r, st') -> below (b_next F st) l ->
+  xstep st st' (fun _ => True) /\ (b_err F st' = false -> wfst st -> below (b_next F st') r).
+Proof.
+  intros C B. pose proof (compress_c _ _ _ _ C B) as CS. pose proof (compress_ok _ _ _ _ C) as (X & _ & _).
+  split; [split; [apply (ext_err _ _ X)|]|].
+  - intros E WF. destruct (CS E WF) as (WF' & L & _ & R). split; [exact WF'|split; [exact L|]].
+    intros w G _. destruct (R w G I) as (w' & A & G' & _). exists w'. split; assumption.
+  - intros E WF. apply (CS E WF).
+Qed.
+
+Lemma add_x st vars sb r st' : b_add st vars sb = (r, st') -> Forall (below (b_next F st)) vars ->
+  xstep st st' (fun _ => True) /\ (b_err F st' = false -> wfst st -> below (b_next F st') r).
+Proof.
+  unfold BuilderR1CS.b_add. intros C BV.
+  destruct (b_compress st (merge_les vars sb)) as [r0 st0] eqn:CE. injection C as <- <-.
+  assert (X : xstep st st0 (fun _ => True) /\ (b_err F st0 = false -> wfst st -> below (b_next F st0) r0)).
+  { pose proof (compress_ok _ _ _ _ CE) as (XE & _ & _).
+    split; [split; [apply (ext_err _ _ XE)|]|].
+    - intros E WF. assert (B : below (b_next F st) (merge_les vars sb)) by (apply below_merge; [apply WF|exact BV]).
+      destruct (compress_x _ _ _ _ CE B) as [[_ X] _]. apply X; assumption.
+    - intros E WF. assert (B : below (b_next F st) (merge_les vars sb)) by (apply below_merge; [apply WF|exact BV]).
+      destruct (compress_x _ _ _ _ CE B) as [_ RB]. apply RB; assumption. }
+  exact X.
+Qed.
+
+Definition xr (st st' : bstate) (r : lexp) (P : (nat -> F) -> Prop) : Prop :=
+  xstep st st' P /\ (b_err F st' = false -> wfst st -> below (b_next F st') r).
+
+Lemma xr_const st r (P : (nat -> F) -> Prop) : (wfst st -> below (b_next F st) r) -> xr st st r P.
+Proof. intros B. split; [apply x_refl|]. intros _ WF. apply B; exact WF. Qed.
+
+Lemma mul2_x st v1 v2 r st' : b_mul2 st v1 v2 = (r, st') -> below (b_next F st) v1 -> below (b_next F st) v2 ->
+  xr st st' r (fun _ => True).
+Proof.
+  unfold BuilderR1CS.b_mul2. intros H B1 B2. destruct (is_const v1) eqn:C1, (is_const v2) eqn:C2.
+  - injection H as <- <-. apply xr_const. intros WF. apply below_cle. apply WF.
+  - injection H as <- <-. apply xr_const. intros _. apply below_scale; exact B2.
+  - injection H as <- <-. apply xr_const. intros _. apply below_scale; exact B1.
+  - destruct (b_newvar st) as [t st1] eqn:N. injection H as <- <-.
+    split; [split|].
+    + rewrite row_err. unfold BuilderR1CS.b_newvar in N. injection N as _ <-. auto.
+    + intros E WF. destruct (newvar_c _ _ _ N WF) as (WF1 & NX & RT & E1 & GG).
+      assert (M1 : below (b_next F st1) v1) by (eapply below_mono; [|exact B1]; lia).
+      assert (M2 : below (b_next F st1) v2) by (eapply below_mono; [|exact B2]; lia).
+      assert (MT : below (b_next F st1) t) by (rewrite RT, NX; apply below_var; lia).
+      split; [apply wfst_row; assumption|]. split; [rewrite row_next; lia|].
+      intros w G _. destruct (newvar_x _ _ _ (ev w v1 * ev w v2) N WF w G) as (w1 & A & G1 & V).
+      exists w1. split; [exact A|]. apply good_row. split; [exact G1|].
+      rewrite <- (ev_agree _ w w1 v1 B1 A), <- (ev_agree _ w w1 v2 B2 A). symmetry. exact V.
+    + intros E WF. destruct (newvar_c _ _ _ N WF) as (WF1 & NX & RT & E1 & GG). rewrite row_next, RT, NX. apply below_var. lia.
+Qed.
+
+(* composition for result-producing steps whose second step takes the first result as an operand *)
+Lemma xr_then st st1 st2 r1 r2 (P P2 : (nat -> F) -> Prop) :
+  xr st st1 r1 P ->
+  (b_err F st2 = false -> wfst st1 -> b_next F st <= b_next F st1 -> below (b_next F st1) r1 -> xr st1 st2 r2 P2) ->
+  (b_err F st2 = false -> b_err F st1 = false) ->
+  (forall w w1, good w st -> P w -> agree (b_next F st) w w1 -> good w1 st1 -> P2 w1) ->
+  xr st st2 r2 P.
+Proof.
+  intros [[E1 X1] B1] H2 E12 HP. split; [split|].
+  - intros E. apply E1. apply E12. exact E.
+  - intros E WF. pose proof (E12 E) as E1'. destruct (X1 E1' WF) as (WF1 & L1 & R1).
+    destruct (H2 E WF1 L1 (B1 E1' WF)) as [[_ X2] _]. destruct (X2 E WF1) as (WF2 & L2 & R2).
+    split; [exact WF2|split; [lia|]]. intros w G Pw. destruct (R1 w G Pw) as (w1 & A1 & G1).
+    destruct (R2 w1 G1 (HP w w1 G Pw A1 G1)) as (w2 & A2 & G2). exists w2. split; [eapply agree_trans; eassumption|exact G2].
+  - intros E WF. pose proof (E12 E) as E1'. destruct (X1 E1' WF) as (WF1 & L1 & R1).
+    destruct (H2 E WF1 L1 (B1 E1' WF)) as [_ B2]. apply B2; assumption.
+Qed.
+
+Lemma xr_next st st' r P : xr st st' r P -> b_err F st' = false -> wfst st -> b_next F st <= b_next F st'.
+Proof. intros [[_ X] _] E WF. apply (X E WF). Qed.
+
+Lemma mul_list_x vs : forall st acc r st', b_mul_list st acc vs = (r, st') ->
+  below (b_next F st) acc -> Forall (below (b_next F st)) vs -> xr st st' r (fun _ => True).
+Proof.
+  induction vs as [|v vs IH]; intros st acc r st' H BA BV; cbn [BuilderR1CS.b_mul_list] in H.
+  - injection H as <- <-. apply xr_const. intros _. exact BA.
+  - destruct (b_mul2 st acc v) as [r1 st1] eqn:M.
+    pose proof (mul2_x _ _ _ _ _ M BA (Forall_inv BV)) as X1.
+    pose proof (mul_list_ok _ _ _ _ _ H) as (XE & _ & _).
+    eapply xr_then; [exact X1| |apply (ext_err _ _ XE)|intros; exact I].
+    intros E WF1 L1 B1. eapply IH; [exact H|exact B1|].
+    eapply Forall_impl; [|exact (Forall_inv_tail BV)]. intros l BL. eapply below_mono; [exact L1|exact BL].
+Qed.
+
+Lemma mul_x st vars r st' : b_mul st vars = (r, st') -> Forall (below (b_next F st)) vars -> xr st st' r (fun _ => True).
+Proof.
+  unfold BuilderR1CS.b_mul. intros H BV. destruct vars as [|v1 [|v2 vs]].
+  - injection H as <- <-. split; [apply x_err|intros E; discriminate E].
+  - injection H as <- <-. split; [apply x_err|intros E; discriminate E].
+  - destruct (b_mul2 st v1 v2) as [r1 st1] eqn:M.
+    pose proof (mul2_x _ _ _ _ _ M (Forall_inv BV) (Forall_inv (Forall_inv_tail BV))) as X1.
+    pose proof (mul_list_ok _ _ _ _ _ H) as (XE & _ & _).
+    eapply xr_then; [exact X1| |apply (ext_err _ _ XE)|intros; exact I].
+    intros E WF1 L1 B1. eapply mul_list_x; [exact H|exact B1|].
+    eapply Forall_impl; [|exact (Forall_inv_tail (Forall_inv_tail BV))]. intros l BL. eapply below_mono; [exact L1|exact BL].
+Qed.
+
+Lemma mulacc_x st a b c r st' : b_mulacc st a b c = (r, st') ->
+  below (b_next F st) a -> below (b_next F st) b -> below (b_next F st) c -> xr st st' r (fun _ => True).
+Proof.
+  unfold BuilderR1CS.b_mulacc. intros H Ba Bb Bc. destruct (b_mul2 st b c) as [t st1] eqn:M.
+  pose proof (mul2_x _ _ _ _ _ M Bb Bc) as X1. pose proof (add_ok _ _ _ _ _ H) as (XE & _ & _).
+  eapply xr_then; [exact X1| |apply (ext_err _ _ XE)|intros; exact I].
+  intros E WF1 L1 B1. apply (add_x _ _ _ _ _ H). constructor; [eapply below_mono; [exact L1|exact Ba]|constructor; [exact B1|constructor]].
+Qed.
+
+Lemma assert_eq_x st v1 v2 : below (b_next F st) v1 -> below (b_next F st) v2 ->
+  xstep st (b_assert_eq st v1 v2) (fun w => ev w v1 = ev w v2).
+Proof.
+  intros B1 B2. unfold BuilderR1CS.b_assert_eq.
+  assert (R : xstep st (b_row st le_one v1 v2) (fun w => ev w v1 = ev w v2)).
+  { split; [rewrite row_err; auto|]. intros _ WF.
+    assert (B0 : below (b_next F st) le_one) by (apply below_cle; apply WF).
+    destruct (x_row st le_one v1 v2 B0 B1 B2) as [_ X]. destruct (X (eq_refl _) WF) as (WF' & L & RR) || idtac.
+    all: try (split; [apply wfst_row; assumption|split; [rewrite row_next; lia|]]).
+    intros w G Eq. exists w. split; [apply agree_refl|]. apply good_row. split; [exact G|].
+    unfold BuilderR1CS.le_one. rewrite (ev_cle w 1 (proj1 G)), <- Eq. ring. }
+  destruct (is_const v1) as [c1|]; [|exact R]. destruct (is_const v2) as [c2|]; [|exact R].
+  destruct (feqb c1 c2); [apply x_refl|apply x_err].
+Qed.
+
+Lemma assert_bool_x st v : below (b_next F st) v -> xstep st (b_assert_bool st v) (fun w => is_bool (ev w v)).
+Proof.
+  intros B. unfold BuilderR1CS.b_assert_bool. destruct (is_const v) as [c|] eqn:C.
+  - destruct (_ || _); [apply x_refl|apply x_err].
+  - destruct (is_marked st v); [apply x_refl|].
+    destruct (b_add (b_mark st v) [le_one; v] true) as [nv st2] eqn:A.
+    pose proof (add_ok _ _ _ _ _ A) as (X2 & B2 & V2).
+    assert (NXm : b_next F (b_mark st v) = b_next F st).
+    { unfold BuilderR1CS.b_mark. rewrite C. reflexivity. }
+    split.
+    + rewrite row_err. intros E. apply (mark_err st v). apply (ext_err _ _ X2 E).
+    + rewrite row_err. intros E WF.
+      assert (WFm : wfst (b_mark st v)). { unfold wfst. rewrite NXm, mark_instrs. exact WF. }
+      assert (BVm : Forall (below (b_next F (b_mark st v))) [le_one; v]).
+      { rewrite NXm. constructor; [apply below_cle; apply WF|constructor; [exact B|constructor]]. }
+      destruct (add_x _ _ _ _ _ A BVm) as [[_ XA] RB]. destruct (XA E WFm) as (WF2 & L2 & R2). rewrite NXm in L2.
+      split; [apply wfst_row; [exact WF2|eapply below_mono; [exact L2|exact B]|apply RB; assumption|apply below_cle; apply WF2]|].
+      split; [rewrite row_next; exact L2|].
+      intros w G HB. destruct (R2 w (proj2 (mark_good w st v) G) I) as (w2 & A2 & G2). rewrite NXm in A2.
+      exists w2. split; [exact A2|]. apply good_row. split; [exact G2|].
+      rewrite (V2 w2 G2 E). cbn [sum_ev fold_left]. unfold BuilderR1CS.le_one. rewrite (ev_cle w2 1 (proj1 G2)), ev_le_zero.
+      rewrite <- (ev_agree _ w w2 v B A2). apply boolean_rel. exact HB.
+Qed.
+
+Lemma inverse_x st v r st' : b_inverse st v = (r, st') -> below (b_next F st) v -> xr st st' r (fun w => ev w v <> 0).
+Proof.
+  unfold BuilderR1CS.b_inverse. intros H B. destruct (is_const v) as [c|].
+  - destruct (feqb c 0); injection H as <- <-; [split; [apply x_err|intros E; discriminate E]|].
+    apply xr_const. intros WF. apply below_cle. apply WF.
+  - destruct (b_newvar st) as [t st1] eqn:N. injection H as <- <-. split; [split|].
+    + rewrite row_err. unfold BuilderR1CS.b_newvar in N. injection N as _ <-. auto.
+    + intros E WF. destruct (newvar_c _ _ _ N WF) as (WF1 & NX & RT & E1 & GG).
+      assert (M1 : below (b_next F st1) v) by (eapply below_mono; [|exact B]; lia).
+      assert (MT : below (b_next F st1) t) by (rewrite RT, NX; apply below_var; lia).
+      split; [apply wfst_row; [exact WF1|exact MT|exact M1|apply below_cle; apply WF1]|]. split; [rewrite row_next; lia|].
+      intros w G NZ. destruct (newvar_x _ _ _ (inv (ev w v)) N WF w G) as (w1 & A & G1 & V).
+      exists w1. split; [exact A|]. apply good_row. split; [exact G1|].
+      unfold BuilderR1CS.le_one. rewrite (ev_cle w1 1 (proj1 G1)), V, <- (ev_agree _ w w1 v B A). field. exact NZ.
+    + intros E WF. destruct (newvar_c _ _ _ N WF) as (WF1 & NX & RT & E1 & GG). rewrite row_next, RT, NX. apply below_var. lia.
+Qed.
+
+Lemma div_const_below n v1 n2 : 0 < n -> below n v1 ->
+  below n (match is_const v1 with Some n1 => cle (inv n2 * n1) | None => scale v1 (inv n2) end).
+Proof. intros P B. destruct (is_const v1); [apply below_cle; exact P|apply below_scale; exact B]. Qed.
+
+Lemma div_x st v1 v2 r st' : b_div st v1 v2 = (r, st') -> below (b_next F st) v1 -> below (b_next F st) v2 ->
+  xr st st' r (fun w => ev w v2 <> 0).
+Proof.
+  unfold BuilderR1CS.b_div. intros H B1 B2. destruct (is_const v2) as [n2|].
+  - destruct (feqb n2 0); [injection H as <- <-; split; [apply x_err|intros E; discriminate E]|].
+    assert (H' : (match is_const v1 with Some n1 => cle (inv n2 * n1) | None => scale v1 (inv n2) end, st) = (r, st')) by (destruct (is_const v1); exact H).
+    injection H' as <- <-. apply xr_const. intros WF. apply div_const_below; [apply WF|exact B1].
+  - destruct (b_newvar st) as [t st1] eqn:N1. destruct (b_newvar st1) as [vi st2] eqn:N2. injection H as <- <-. split; [split|].
+    + rewrite !row_err. unfold BuilderR1CS.b_newvar in N1, N2. injection N1 as _ <-. injection N2 as _ <-. auto.
+    + intros E WF. destruct (newvar_c _ _ _ N1 WF) as (WF1 & NX1 & RT & E1 & GG1). destruct (newvar_c _ _ _ N2 WF1) as (WF2 & NX2 & RV & E2 & GG2).
+      assert (M1 : below (b_next F st2) v1) by (eapply below_mono; [|exact B1]; lia).
+      assert (M2 : below (b_next F st2) v2) by (eapply below_mono; [|exact B2]; lia).
+      assert (MT : below (b_next F st2) t) by (rewrite RT; apply below_var; lia).
+      assert (MV : below (b_next F st2) vi) by (rewrite RV; apply below_var; lia).
+      assert (WR1 : wfst (b_row st2 v2 vi le_one)) by (apply wfst_row; [exact WF2|exact M2|exact MV|apply below_cle; apply WF2]).
+      split; [apply wfst_row; rewrite ?row_next; assumption|]. split; [rewrite !row_next; lia|].
+      intros w G NZ. destruct (newvar_x _ _ _ (ev w v1 / ev w v2) N1 WF w G) as (w1 & A1 & G1 & V1).
+      destruct (newvar_x _ _ _ (inv (ev w v2)) N2 WF1 w1 G1) as (w2 & A2 & G2 & V2).
+      assert (A : agree (b_next F st) w w2) by (eapply agree_trans; [|exact A1|exact A2]; lia).
+      exists w2. split; [exact A|]. apply good_row. split; [apply good_row; split; [exact G2|]|].
+      * unfold BuilderR1CS.le_one. rewrite (ev_cle w2 1 (proj1 G2)), V2, <- (ev_agree _ w w2 v2 B2 A). field. exact NZ.
+      * rewrite V2, <- (ev_agree _ w w2 v1 B1 A).
+        assert (BT1 : below (b_next F st1) t) by (rewrite RT, NX1; apply below_var; lia).
+        rewrite <- (ev_agree _ w1 w2 t BT1 A2), V1. field. exact NZ.
+    + intros E WF. destruct (newvar_c _ _ _ N1 WF) as (WF1 & NX1 & RT & E1 & GG1). destruct (newvar_c _ _ _ N2 WF1) as (WF2 & NX2 & RV & E2 & GG2).
+      rewrite !row_next, RT. apply below_var. lia.
+Qed.
+
+(* DivUnchecked: for 0/0 the result wire can take any prescribed value q *)
+Lemma divunchecked_c st v1 v2 r st' q : b_divunchecked st v1 v2 = (r, st') -> below (b_next F st) v1 -> below (b_next F st) v2 ->
+  (b_err F st' = false -> b_err F st = false) /\
+  cstep st st' r (fun w => (ev w v2 <> 0) \/ (ev w v2 = 0 /\ ev w v1 = 0)) (fun w x => ev w v2 = 0 -> x = q).
+Proof.
+  unfold BuilderR1CS.b_divunchecked. intros H B1 B2. destruct (is_const v2) as [n2|] eqn:C2.
+  - destruct (feqb n2 0) eqn:Z; [injection H as <- <-; split; [intros E; discriminate E|intros E; discriminate E]|].
+    assert (H' : (match is_const v1 with Some n1 => cle (inv n2 * n1) | None => scale v1 (inv n2) end, st) = (r, st')) by (destruct (is_const v1); exact H).
+    injection H' as <- <-. split; [auto|]. intros E WF. split; [exact WF|split; [lia|split; [apply div_const_below; [apply WF|exact B1]|]]].
+    intros w G _. exists w. split; [apply agree_refl|split; [exact G|]]. intros Z2. exfalso. apply feqb_false in Z. apply Z.
+    rewrite <- (is_const_ev w v2 n2 (proj1 G) C2). exact Z2.
+  - destruct (b_newvar st) as [t st1] eqn:N. injection H as <- <-. split.
+    + rewrite row_err. unfold BuilderR1CS.b_newvar in N. injection N as _ <-. auto.
+    + intros E WF. destruct (newvar_c _ _ _ N WF) as (WF1 & NX & RT & E1 & GG).
+      assert (M1 : below (b_next F st1) v1) by (eapply below_mono; [|exact B1]; lia).
+      assert (M2 : below (b_next F st1) v2) by (eapply below_mono; [|exact B2]; lia).
+      assert (MT : below (b_next F st1) t) by (rewrite RT, NX; apply below_var; lia).
+      split; [apply wfst_row; assumption|]. split; [rewrite row_next; lia|]. split; [rewrite row_next; exact MT|].
+      intros w G PRE.
+      destruct (newvar_x _ _ _ (if eq_dec (ev w v2) 0 then q else ev w v1 / ev w v2) N WF w G) as (w1 & A & G1 & V).
+      exists w1. split; [exact A|]. split.
+      * apply good_row. split; [exact G1|]. rewrite V, <- (ev_agree _ w w1 v1 B1 A), <- (ev_agree _ w w1 v2 B2 A).
+        destruct (eq_dec (ev w v2) 0) as [Z|NZ].
+        -- destruct PRE as [NZ|[_ Z1]]; [contradiction|]. rewrite Z, Z1. ring.
+        -- field. exact NZ.
+      * intros Z. rewrite V. destruct (eq_dec (ev w v2) 0); [reflexivity|contradiction].
+Qed.
+
+Lemma assert_diff_x st v1 v2 : below (b_next F st) v1 -> below (b_next F st) v2 ->
+  xstep st (b_assert_diff st v1 v2) (fun w => ev w v1 <> ev w v2).
+Proof.
+  intros B1 B2. unfold BuilderR1CS.b_assert_diff. destruct (b_add st [v1; v2] true) as [s0 st1] eqn:A.
+  pose proof (add_ok _ _ _ _ _ A) as (XA & _ & VA).
+  assert (BV : Forall (below (b_next F st)) [v1; v2]) by (constructor; [exact B1|constructor; [exact B2|constructor]]).
+  destruct (add_x _ _ _ _ _ A BV) as [XS RB].
+  assert (INV : xstep st (snd (b_inverse st1 s0)) (fun w => ev w v1 <> ev w v2)).
+  { destruct (b_inverse st1 s0) as [r st2] eqn:IV. cbn [snd]. pose proof (inverse_ok _ _ _ _ IV) as (XI & _ & _).
+    destruct XS as [ES XS']. split; [intros E; apply ES; apply (ext_err _ _ XI E)|].
+    intros E WF. pose proof (ext_err _ _ XI E) as E1. destruct (XS' E1 WF) as (WF1 & L1 & R1).
+    destruct (inverse_x _ _ _ _ IV (RB E1 WF)) as [[_ XI'] _]. destruct (XI' E WF1) as (WF2 & L2 & R2).
+    split; [exact WF2|split; [lia|]]. intros w G NE. destruct (R1 w G I) as (w1 & A1 & G1).
+    assert (NZ : ev w1 s0 <> 0).
+    { rewrite (VA w1 G1 E1). cbn [sum_ev fold_left]. rewrite <- (ev_agree _ w w1 v1 B1 A1), <- (ev_agree _ w w1 v2 B2 A1).
+      intros Z. apply NE. transitivity (ev w v1 - ev w v2 + ev w v2); [ring|rewrite Z; ring]. }
+    destruct (R2 w1 G1 NZ) as (w2 & A2 & G2). exists w2. split; [eapply agree_trans; eassumption|exact G2]. }
+  destruct s0 as [|[c x] [|t s0]]; try exact INV. destruct (feqb c 0); [|exact INV].
+  split; intros E; discriminate E.
+Qed.
+
+(* hint outputs can take any prescribed values *)
+Lemma hint_c st hid ins n rs st' (vals : list F) : b_hint st hid ins n = (rs, st') -> length vals = n -> wfst st ->
+  wfst st' /\ b_next F st <= b_next F st' /\ Forall (below (b_next F st')) rs /\ b_err F st' = b_err F st /\
+  forall w, good w st -> exists w', agree (b_next F st) w w' /\ good w' st' /\ map (ev w') rs = vals.
+Proof.
+  unfold BuilderR1CS.b_hint. intros [= <- <-] LV [P W]. unfold wfst. cbn [b_next b_instrs b_err].
+  split; [split; [lia|constructor; [exact I|eapply wfst_mono_instrs; [|exact W]; lia]]|]. split; [lia|].
+  split; [apply Forall_forall; intros l IN; apply in_map_iff in IN; destruct IN as (k & <- & IK); apply in_seq in IK; apply below_var; lia|].
+  split; [reflexivity|]. intros w [G0 G].
+  set (w' := fun y => if Nat.ltb y (b_next F st) then w y else nth (Nat.sub y (b_next F st)) vals 0).
+  assert (A : agree (b_next F st) w w').
+  { intros y H. unfold w'. destruct (Nat.ltb y (b_next F st)) eqn:E; [reflexivity|apply Nat.ltb_ge in E; lia]. }
+  exists w'. split; [exact A|]. split.
+  - pose proof (good_agree st w w' (conj P W) A (conj G0 G)) as [G0' G']. split; [exact G0'|constructor; [exact I|exact G']].
+  - rewrite map_map. rewrite <- LV.
+    assert (H : forall k, k < length vals -> ev w' [(1, Nat.add (b_next F st) k)] = nth k vals 0).
+    { intros k Hk. rewrite ev_var. unfold w'. destruct (Nat.ltb (Nat.add (b_next F st) k) (b_next F st)) eqn:E; [apply Nat.ltb_lt in E; lia|].
+      replace (Nat.sub (Nat.add (b_next F st) k) (b_next F st)) with k by lia. reflexivity. }
+    apply nth_ext with (d := 0) (d' := 0); [rewrite map_length, seq_length; reflexivity|].
+    intros k Hk. rewrite map_length, seq_length in Hk.
+    rewrite (nth_indep _ 0 (ev w' [(1, (b_next F st + 0)%nat)])) by (rewrite map_length, seq_length; exact Hk).
+    rewrite (map_nth (fun k => ev w' [(1, (b_next F st + k)%nat)]) (seq 0 (length vals)) O k), seq_nth by exact Hk. apply H. exact Hk.
+Qed.
+
+Lemma x_xr st st1 st2 r (P P1 P2 : (nat -> F) -> Prop) :
+  xstep st st1 P1 ->
+  (b_err F st2 = false -> wfst st1 -> b_next F st <= b_next F st1 -> xr st1 st2 r P2) ->
+  (b_err F st2 = false -> b_err F st1 = false) ->
+  (forall w, good w st -> P w -> P1 w) ->
+  (forall w w1, good w st -> P w -> agree (b_next F st) w w1 -> good w1 st1 -> P2 w1) ->
+  xr st st2 r P.
+Proof.
+  intros [E1 X1] H2 E12 HP1 HP2. split; [split|].
+  - intros E. apply E1. apply E12. exact E.
+  - intros E WF. pose proof (E12 E) as E1'. destruct (X1 E1' WF) as (WF1 & L1 & R1).
+    destruct (H2 E WF1 L1) as [[_ X2] _]. destruct (X2 E WF1) as (WF2 & L2 & R2).
+    split; [exact WF2|split; [lia|]]. intros w G Pw. destruct (R1 w G (HP1 w G Pw)) as (w1 & A1 & G1).
+    destruct (R2 w1 G1 (HP2 w w1 G Pw A1 G1)) as (w2 & A2 & G2). exists w2. split; [eapply agree_trans; eassumption|exact G2].
+  - intros E WF. pose proof (E12 E) as E1'. destruct (X1 E1' WF) as (WF1 & L1 & R1).
+    destruct (H2 E WF1 L1) as [_ B2]. apply B2; assumption.
+Qed.
+
+Lemma mark_next st v : b_next F (b_mark st v) = b_next F st.
+Proof. unfold BuilderR1CS.b_mark. destruct (is_const v); [destruct (_ || _)|]; reflexivity. Qed.
+
+Lemma xr_mark st st' r (P : (nat -> F) -> Prop) v : xr st st' r P -> xr st (b_mark st' v) r P.
+Proof.
+  intros [[E X] B]. split; [split|].
+  - intros Em. apply E. apply (mark_err _ _ Em).
+  - intros Em WF. pose proof (mark_err _ _ Em) as E'. destruct (X E' WF) as (WF' & L & R).
+    split; [unfold wfst; rewrite mark_next, mark_instrs; exact WF'|]. split; [rewrite mark_next; exact L|].
+    intros w G Pw. destruct (R w G Pw) as (w' & A & G'). exists w'. split; [exact A|apply mark_good; exact G'].
+  - intros Em WF. rewrite mark_next. apply B; [apply (mark_err _ _ Em)|exact WF].
+Qed.
+
+Lemma is_bool_agree n w w1 v : below n v -> agree n w w1 -> is_bool (ev w v) -> is_bool (ev w1 v).
+Proof. intros B A H. rewrite <- (ev_agree _ w w1 v B A). exact H. Qed.
+
+Lemma ab2_x st a b : below (b_next F st) a -> below (b_next F st) b ->
+  xstep st (b_assert_bool (b_assert_bool st a) b) (fun w => is_bool (ev w a) /\ is_bool (ev w b)).
+Proof.
+  intros Ba Bb. pose proof (assert_bool_x st a Ba) as [E1 X1].
+  destruct (assert_bool_ok (b_assert_bool st a) b) as [XE2 _].
+  split; [intros E; apply E1; apply (ext_err _ _ XE2 E)|]. intros E WF. pose proof (ext_err _ _ XE2 E) as E1'.
+  destruct (X1 E1' WF) as (WF1 & L1 & R1).
+  destruct (assert_bool_x (b_assert_bool st a) b (below_mono _ _ _ L1 Bb)) as [_ X2]. destruct (X2 E WF1) as (WF2 & L2 & R2).
+  split; [exact WF2|split; [lia|]]. intros w G [Ha Hb]. destruct (R1 w G Ha) as (w1 & A1 & G1).
+  destruct (R2 w1 G1 (is_bool_agree _ w w1 b Bb A1 Hb)) as (w2 & A2 & G2). exists w2. split; [eapply agree_trans; eassumption|exact G2].
+Qed.
+
+Lemma and_x st a b r st' : b_and st a b = (r, st') -> below (b_next F st) a -> below (b_next F st) b ->
+  xr st st' r (fun w => is_bool (ev w a) /\ is_bool (ev w b)).
+Proof.
+  unfold BuilderR1CS.b_and. intros H Ba Bb. destruct (b_mul _ [a; b]) as [r0 st3] eqn:M. injection H as <- <-.
+  apply xr_mark. pose proof (mul_ok _ _ _ _ M) as (XE & _ & _).
+  eapply x_xr; [apply (ab2_x st a b Ba Bb)| |apply (ext_err _ _ XE)|intros w _ H; exact H|intros; exact I].
+  intros E WF2 L2. apply (mul_x _ _ _ _ M). constructor; [eapply below_mono; [exact L2|exact Ba]|constructor; [eapply below_mono; [exact L2|exact Bb]|constructor]].
+Qed.
+
+Ltac errmono := let E := fresh "E" in intros E; eauto 8 using ext_err.
+Ltac bmono L := eapply below_mono; [exact L|]; assumption.
+
+Lemma xor_x st a b r st' : b_xor st a b = (r, st') -> below (b_next F st) a -> below (b_next F st) b ->
+  xr st st' r (fun w => is_bool (ev w a) /\ is_bool (ev w b)).
+Proof.
+  unfold BuilderR1CS.b_xor. intros H Ba Bb.
+  set (ab := if Nat.ltb (length a) (length b) then (b, a) else (a, b)) in H.
+  assert (BAB : below (b_next F st) (fst ab) /\ below (b_next F st) (snd ab)) by (subst ab; destruct (Nat.ltb _ _); cbn; auto).
+  destruct ab as [a' b']. cbn [fst snd] in BAB. destruct BAB as [Ba' Bb'].
+  destruct (b_mul _ [b'; cle (cst 2)]) as [b2 st3] eqn:M1.
+  destruct (b_add st3 [le_one; b2] true) as [t st4] eqn:A1.
+  destruct (b_mul st4 [a'; t]) as [at_ st5] eqn:M2.
+  destruct (b_add st5 [at_; b'] false) as [r0 st6] eqn:A2. injection H as <- <-.
+  pose proof (proj1 (mul_ok _ _ _ _ M1)) as X3. pose proof (proj1 (add_ok _ _ _ _ _ A1)) as X4.
+  pose proof (proj1 (mul_ok _ _ _ _ M2)) as X5. pose proof (proj1 (add_ok _ _ _ _ _ A2)) as X6.
+  apply xr_mark.
+  eapply x_xr; [apply (ab2_x st a b Ba Bb)| |errmono|intros w _ Hw; exact Hw|intros; exact I].
+  intros E WF2 L2.
+  eapply xr_then; [apply (mul_x _ _ _ _ M1); constructor; [bmono L2|constructor; [apply below_cle; apply WF2|constructor]]| |errmono|intros; exact I].
+  intros _ WF3 L3 B3.
+  eapply xr_then; [apply (add_x _ _ _ _ _ A1); constructor; [apply below_cle; apply WF3|constructor; [exact B3|constructor]]| |errmono|intros; exact I].
+  intros _ WF4 L4 B4.
+  eapply xr_then; [apply (mul_x _ _ _ _ M2); constructor; [eapply below_mono; [|exact Ba']; lia|constructor; [exact B4|constructor]]| |errmono|intros; exact I].
+  intros _ WF5 L5 B5.
+  apply (add_x _ _ _ _ _ A2). constructor; [exact B5|constructor; [eapply below_mono; [|exact Bb']; lia|constructor]].
+Qed.
+
+Lemma or_x st a b r st' : b_or st a b = (r, st') -> below (b_next F st) a -> below (b_next F st) b ->
+  xr st st' r (fun w => is_bool (ev w a) /\ is_bool (ev w b)).
+Proof.
+  unfold BuilderR1CS.b_or. intros H Ba Bb. set (st2 := b_assert_bool (b_assert_bool st a) b) in *.
+  destruct (b_newvar st2) as [r0 st3] eqn:N. injection H as <- <-.
+  pose proof (ab2_x st a b Ba Bb) as [E2 X2]. fold st2 in E2, X2.
+  assert (E3 : b_err F st3 = b_err F st2) by (unfold BuilderR1CS.b_newvar in N; injection N as _ <-; reflexivity).
+  set (st4 := b_mark st3 r0). set (c := b_neg st4 r0 ++ a ++ b).
+  split; [split|].
+  - rewrite row_err. intros E. apply E2. rewrite <- E3. apply (mark_err _ _ E).
+  - rewrite row_err. intros E WF. pose proof (mark_err _ _ E) as E3'. rewrite E3 in E3'.
+    destruct (X2 E3' WF) as (WF2 & L2 & R2). destruct (newvar_c _ _ _ N WF2) as (WF3 & NX & RT & _ & GG).
+    assert (WF4 : wfst st4) by (unfold wfst, st4; rewrite mark_next, mark_instrs; exact WF3).
+    assert (N4 : b_next F st4 = S (b_next F st2)) by (unfold st4; rewrite mark_next; exact NX).
+    assert (Ba4 : below (b_next F st4) a) by (eapply below_mono; [|exact Ba]; lia).
+    assert (Bb4 : below (b_next F st4) b) by (eapply below_mono; [|exact Bb]; lia).
+    assert (Br4 : below (b_next F st4) r0) by (rewrite RT, N4; apply below_var; lia).
+    assert (Bc4 : below (b_next F st4) c).
+    { subst c. apply below_app; [|apply below_app; assumption]. unfold BuilderR1CS.b_neg. destruct (is_const r0); [apply below_cle; apply WF4|apply below_neg; exact Br4]. }
+    split; [apply wfst_row; assumption|]. split; [rewrite row_next; lia|].
+    intros w G [Ha Hb]. destruct (R2 w G (conj Ha Hb)) as (w2 & A2 & G2).
+    destruct (newvar_x _ _ _ (ev w a + ev w b - ev w a * ev w b) N WF2 w2 G2) as (w3 & A3 & G3 & V3).
+    assert (A : agree (b_next F st) w w3) by (eapply agree_trans; [exact L2|exact A2|exact A3]).
+    exists w3. split; [exact A|]. apply good_row. split; [apply mark_good; exact G3|].
+    subst c. rewrite !ev_app, (neg_ok w3 st4 r0 (proj1 G3)), V3, <- (ev_agree _ w w3 a Ba A), <- (ev_agree _ w w3 b Bb A). ring.
+  - rewrite row_err. intros E WF. pose proof (mark_err _ _ E) as E3'. rewrite E3 in E3'.
+    destruct (X2 E3' WF) as (WF2 & L2 & R2). destruct (newvar_c _ _ _ N WF2) as (WF3 & NX & RT & _ & GG).
+    rewrite row_next. unfold st4. rewrite mark_next, RT, NX. apply below_var. lia.
+Qed.
+
+Lemma select_x st c v1 v2 r st' : b_select st c v1 v2 = (r, st') ->
+  below (b_next F st) c -> below (b_next F st) v1 -> below (b_next F st) v2 ->
+  xr st st' r (fun w => is_bool (ev w c)).
+Proof.
+  unfold BuilderR1CS.b_select. intros H Bc B1 B2. set (st1 := b_assert_bool st c) in *.
+  pose proof (assert_bool_x st c Bc) as AB. fold st1 in AB.
+  destruct (is_const c) as [k|] eqn:C.
+  - assert (H' : ((if feqb k 1 then v1 else v2), st1) = (r, st')) by (destruct (feqb k 1); exact H).
+    injection H' as <- <-. split; [exact AB|]. intros E WF. destruct AB as [_ X]. destruct (X E WF) as (_ & L & _).
+    destruct (feqb k 1); eapply below_mono; eassumption.
+  - assert (GEN : forall r st', (let '(v, st2) := b_add st1 [v1; v2] true in let '(w0, st3) := b_mul st2 [c; v] in b_add st3 [w0; v2] false) = (r, st') ->
+       xr st st' r (fun w => is_bool (ev w c))).
+    { intros r1 st1'. destruct (b_add st1 [v1; v2] true) as [v st2] eqn:A1. destruct (b_mul st2 [c; v]) as [w0 st3] eqn:M. intros A2.
+      pose proof (proj1 (add_ok _ _ _ _ _ A1)) as X2. pose proof (proj1 (mul_ok _ _ _ _ M)) as X3. pose proof (proj1 (add_ok _ _ _ _ _ A2)) as X4.
+      eapply x_xr; [exact AB| |errmono|intros w _ Hw; exact Hw|intros; exact I].
+      intros E WF1 L1.
+      eapply xr_then; [apply (add_x _ _ _ _ _ A1); constructor; [bmono L1|constructor; [bmono L1|constructor]]| |errmono|intros; exact I].
+      intros _ WF2 L2 Bv.
+      eapply xr_then; [apply (mul_x _ _ _ _ M); constructor; [eapply below_mono; [|exact Bc]; lia|constructor; [exact Bv|constructor]]| |errmono|intros; exact I].
+      intros _ WF3 L3 Bw.
+      apply (add_x _ _ _ _ _ A2). constructor; [exact Bw|constructor; [eapply below_mono; [|exact B2]; lia|constructor]]. }
+    assert (ZERO : forall r st', (let '(v, st2) := b_add st1 [le_one; c] true in b_mul st2 [v; v2]) = (r, st') ->
+       xr st st' r (fun w => is_bool (ev w c))).
+    { intros r1 st1'. destruct (b_add st1 [le_one; c] true) as [v st2] eqn:A1. intros M.
+      pose proof (proj1 (add_ok _ _ _ _ _ A1)) as X2. pose proof (proj1 (mul_ok _ _ _ _ M)) as X3.
+      eapply x_xr; [exact AB| |errmono|intros w _ Hw; exact Hw|intros; exact I].
+      intros E WF1 L1.
+      eapply xr_then; [apply (add_x _ _ _ _ _ A1); constructor; [apply below_cle; apply WF1|constructor; [bmono L1|constructor]]| |errmono|intros; exact I].
+      intros _ WF2 L2 Bv.
+      apply (mul_x _ _ _ _ M). constructor; [exact Bv|constructor; [eapply below_mono; [|exact B2]; lia|constructor]]. }
+    destruct (is_const v1) as [n1|] eqn:C1; destruct (is_const v2) as [n2|] eqn:C2.
+    + destruct (b_mul st1 [c; cle (n1 - n2)]) as [r1 st2] eqn:M.
+      pose proof (proj1 (mul_ok _ _ _ _ M)) as X2. pose proof (proj1 (add_ok _ _ _ _ _ H)) as X3.
+      eapply x_xr; [exact AB| |errmono|intros w _ Hw; exact Hw|intros; exact I].
+      intros E WF1 L1.
+      eapply xr_then; [apply (mul_x _ _ _ _ M); constructor; [bmono L1|constructor; [apply below_cle; apply WF1|constructor]]| |errmono|intros; exact I].
+      intros _ WF2 L2 Br.
+      apply (add_x _ _ _ _ _ H). constructor; [exact Br|constructor; [eapply below_mono; [|exact B2]; lia|constructor]].
+    + destruct (feqb n1 0); [apply ZERO|apply GEN]; exact H.
+    + apply GEN; exact H.
+    + apply GEN; exact H.
+Qed.
+
+Notation hid_invzero := BuilderR1CS.hid_invzero.
+
+Lemma iszero_x st a r st' : b_iszero st a = (r, st') -> below (b_next F st) a -> xr st st' r (fun _ => True).
+Proof.
+  unfold BuilderR1CS.b_iszero. intros H Ba. destruct (is_const a) as [c|] eqn:C.
+  - destruct (feqb c 0); injection H as <- <-; apply xr_const; intros WF; apply below_cle; apply WF.
+  - destruct (b_newvar st) as [m st1] eqn:N. destruct (b_hint st1 hid_invzero [a] 1) as [xs st2] eqn:HH.
+    destruct (b_add st2 [m; cle (cst 1)] true) as [m1 st3] eqn:A. injection H as <- <-.
+    apply xr_mark.
+    assert (E1 : b_err F st1 = b_err F st) by (unfold BuilderR1CS.b_newvar in N; injection N as _ <-; reflexivity).
+    assert (E2 : b_err F st2 = b_err F st1) by (unfold BuilderR1CS.b_hint in HH; injection HH as _ <-; reflexivity).
+    pose proof (add_ok _ _ _ _ _ A) as (X3 & _ & V3).
+    split; [split|].
+    + rewrite !row_err. intros E. rewrite <- E1, <- E2. apply (ext_err _ _ X3 E).
+    + rewrite !row_err. intros E WF. pose proof (ext_err _ _ X3 E) as E2'.
+      destruct (newvar_c _ _ _ N WF) as (WF1 & NX1 & RM & _ & GG1).
+      destruct (hint_c _ _ _ _ _ _ [if eq_dec (ev (fun _ => 0) a) 0 then 0 else 0] HH eq_refl WF1) as (WF2 & L2 & BX & _ & _).
+      assert (Bm2 : below (b_next F st2) m) by (rewrite RM; apply below_var; lia).
+      assert (BV3 : Forall (below (b_next F st2)) [m; cle (cst 1)]) by (constructor; [exact Bm2|constructor; [apply below_cle; apply WF2|constructor]]).
+      destruct (add_x _ _ _ _ _ A BV3) as [[_ XA] RB]. destruct (XA E WF2) as (WF3 & L3 & R3).
+      assert (Ba3 : below (b_next F st3) a) by (eapply below_mono; [|exact Ba]; lia).
+      assert (Bm3 : below (b_next F st3) m) by (eapply below_mono; [exact L3|exact Bm2]).
+      assert (Bx3 : below (b_next F st3) (hd le_zero xs)).
+      { destruct xs as [|x xs']; [apply below_cle; apply WF3|]. cbn [hd]. eapply below_mono; [exact L3|exact (Forall_inv BX)]. }
+      assert (Bn3 : below (b_next F st3) (b_neg st3 a)).
+      { unfold BuilderR1CS.b_neg. rewrite C. apply below_neg. exact Ba3. }
+      assert (WR : wfst (b_row st3 (b_neg st3 a) (hd le_zero xs) m1)) by (apply wfst_row; [exact WF3|exact Bn3|exact Bx3|apply RB; assumption]).
+      split; [apply wfst_row; rewrite ?row_next; [exact WR|exact Ba3|exact Bm3|apply below_cle; apply WF3]|]. split; [rewrite !row_next; lia|].
+      intros w G _.
+      destruct (newvar_x _ _ _ (isz (ev w a)) N WF w G) as (w1 & A1 & G1 & V1).
+      destruct (hint_c _ _ _ _ _ _ [if eq_dec (ev w a) 0 then 0 else inv (ev w a)] HH eq_refl WF1) as (_ & _ & _ & _ & RH).
+      destruct (RH w1 G1) as (w2 & A2 & G2 & V2).
+      destruct (R3 w2 G2 I) as (w3 & A3 & G3).
+      assert (A13 : agree (b_next F st1) w1 w3) by (eapply agree_trans; [exact L2|exact A2|exact A3]).
+      assert (A03 : agree (b_next F st) w w3) by (eapply agree_trans; [|exact A1|exact A13]; lia).
+      exists w3. split; [exact A03|].
+      assert (Em : ev w3 m = isz (ev w a)).
+      { rewrite <- V1. symmetry. eapply ev_agree; [|exact A13]. rewrite RM, NX1. apply below_var. lia. }
+      assert (Ex : ev w3 (hd le_zero xs) = if eq_dec (ev w a) 0 then 0 else inv (ev w a)).
+      { destruct xs as [|x [|x' xs']]; try discriminate V2. cbn [hd]. cbn [map] in V2. injection V2 as V2.
+        rewrite <- V2. symmetry. eapply ev_agree; [exact (Forall_inv BX)|exact A3]. }
+      assert (Ea : ev w3 a = ev w a) by (symmetry; eapply ev_agree; [exact Ba|exact A03]).
+      apply good_row. split; [apply good_row; split; [exact G3|]|].
+      * rewrite (neg_ok w3 st3 a (proj1 G3)), Ex, (V3 w3 G3 E), Ea. cbn [sum_ev fold_left]. rewrite Em, (ev_cle w3 _ (proj1 G3)), cst1.
+        unfold isz. destruct (eq_dec (ev w a) 0) as [Z|NZ]; [rewrite Z; ring|field; exact NZ].
+      * rewrite Ea, Em, ev_le_zero. unfold isz. destruct (eq_dec (ev w a) 0) as [Z|NZ]; [rewrite Z; ring|ring].
+    + rewrite !row_next. intros E WF. rewrite !row_err in E. pose proof (ext_err _ _ X3 E) as E2'.
+      destruct (newvar_c _ _ _ N WF) as (WF1 & NX1 & RM & _ & GG1).
+      destruct (hint_c _ _ _ _ _ _ [0] HH eq_refl WF1) as (WF2 & L2 & BX & _ & _).
+      assert (Bm2 : below (b_next F st2) m) by (rewrite RM; apply below_var; lia).
+      assert (BV3 : Forall (below (b_next F st2)) [m; cle (cst 1)]) by (constructor; [exact Bm2|constructor; [apply below_cle; apply WF2|constructor]]).
+      destruct (add_x _ _ _ _ _ A BV3) as [[_ XA] RB]. destruct (XA E WF2) as (WF3 & L3 & R3).
+      eapply below_mono; [exact L3|exact Bm2].
+Qed.
+
+Lemma lookup2_x st s0 s1 i0 i1 i2 i3 r st' : b_lookup2 st s0 s1 i0 i1 i2 i3 = (r, st') ->
+  below (b_next F st) s0 -> below (b_next F st) s1 -> below (b_next F st) i0 -> below (b_next F st) i1 ->
+  below (b_next F st) i2 -> below (b_next F st) i3 ->
+  xr st st' r (fun w => is_bool (ev w s0) /\ is_bool (ev w s1)).
+Proof.
+  unfold BuilderR1CS.b_lookup2. intros H Bs0 Bs1 B0 B1 B2 B3. set (st2 := b_assert_bool (b_assert_bool st s0) s1) in *.
+  pose proof (ab2_x st s0 s1 Bs0 Bs1) as AB. fold st2 in AB.
+  assert (GEN : forall r st',
+    (let '(t1, st3) := b_add st2 [i3; i0] false in
+     let '(t1, st4) := b_add st3 [t1; i2; i1] true in
+     let '(t1, st5) := b_mul st4 [t1; s1] in
+     let '(t1, st6) := b_add st5 [t1; i1] false in
+     let '(t1, st7) := b_add st6 [t1; i0] true in
+     let '(t2, st8) := b_mul st7 [t1; s0] in
+     let '(r, st9) := b_add st8 [i2; i0] true in
+     let '(r, st10) := b_mul st9 [r; s1] in
+     b_add st10 [r; t2; i0] false) = (r, st') ->
+    xr st st' r (fun w => is_bool (ev w s0) /\ is_bool (ev w s1))).
+  { intros r1 st1'.
+    destruct (b_add st2 [i3; i0] false) as [ta st3] eqn:H1. destruct (b_add st3 [ta; i2; i1] true) as [tb st4] eqn:H2.
+    destruct (b_mul st4 [tb; s1]) as [tc st5] eqn:H3. destruct (b_add st5 [tc; i1] false) as [td st6] eqn:H4.
+    destruct (b_add st6 [td; i0] true) as [te st7] eqn:H5. destruct (b_mul st7 [te; s0]) as [t2 st8] eqn:H6.
+    destruct (b_add st8 [i2; i0] true) as [ra st9] eqn:H7. destruct (b_mul st9 [ra; s1]) as [rb st10] eqn:H8. intros H9.
+    pose proof (proj1 (add_ok _ _ _ _ _ H1)) as X3. pose proof (proj1 (add_ok _ _ _ _ _ H2)) as X4. pose proof (proj1 (mul_ok _ _ _ _ H3)) as X5.
+    pose proof (proj1 (add_ok _ _ _ _ _ H4)) as X6. pose proof (proj1 (add_ok _ _ _ _ _ H5)) as X7. pose proof (proj1 (mul_ok _ _ _ _ H6)) as X8.
+    pose proof (proj1 (add_ok _ _ _ _ _ H7)) as X9. pose proof (proj1 (mul_ok _ _ _ _ H8)) as X10. pose proof (proj1 (add_ok _ _ _ _ _ H9)) as X11.
+    assert (EM : b_err F st1' = false -> b_err F st2 = false).
+    { intros E. apply (ext_err _ _ X3). apply (ext_err _ _ X4). apply (ext_err _ _ X5). apply (ext_err _ _ X6). apply (ext_err _ _ X7).
+      apply (ext_err _ _ X8). apply (ext_err _ _ X9). apply (ext_err _ _ X10). apply (ext_err _ _ X11). exact E. }
+    eapply x_xr; [exact AB| |exact EM|intros w _ Hw; exact Hw|intros; exact I].
+    intros E WF2 L2.
+    pose proof (ext_err _ _ X11 E) as E10. pose proof (ext_err _ _ X10 E10) as E9. pose proof (ext_err _ _ X9 E9) as E8.
+    pose proof (ext_err _ _ X8 E8) as E7. pose proof (ext_err _ _ X7 E7) as E6. pose proof (ext_err _ _ X6 E6) as E5.
+    pose proof (ext_err _ _ X5 E5) as E4. pose proof (ext_err _ _ X4 E4) as E3.
+    assert (M : forall l, below (b_next F st) l -> below (b_next F st2) l) by (intros l Bl; eapply below_mono; [exact L2|exact Bl]).
+    eapply xr_then; [apply (add_x _ _ _ _ _ H1); repeat constructor; apply M; assumption| |intros _; exact E3|intros; exact I].
+    intros _ WF3 L3 Ba.
+    assert (M3 : forall l, below (b_next F st) l -> below (b_next F st3) l) by (intros l Bl; eapply below_mono; [|exact Bl]; lia).
+    eapply xr_then; [apply (add_x _ _ _ _ _ H2); constructor; [exact Ba|repeat constructor; apply M3; assumption]| |intros _; exact E4|intros; exact I].
+    intros _ WF4 L4 Bb.
+    assert (M4 : forall l, below (b_next F st) l -> below (b_next F st4) l) by (intros l Bl; eapply below_mono; [|exact Bl]; lia).
+    eapply xr_then; [apply (mul_x _ _ _ _ H3); constructor; [exact Bb|repeat constructor; apply M4; assumption]| |intros _; exact E5|intros; exact I].
+    intros _ WF5 L5 Bc.
+    assert (M5 : forall l, below (b_next F st) l -> below (b_next F st5) l) by (intros l Bl; eapply below_mono; [|exact Bl]; lia).
+    eapply xr_then; [apply (add_x _ _ _ _ _ H4); constructor; [exact Bc|repeat constructor; apply M5; assumption]| |intros _; exact E6|intros; exact I].
+    intros _ WF6 L6 Bd.
+    assert (M6 : forall l, below (b_next F st) l -> below (b_next F st6) l) by (intros l Bl; eapply below_mono; [|exact Bl]; lia).
+    eapply xr_then; [apply (add_x _ _ _ _ _ H5); constructor; [exact Bd|repeat constructor; apply M6; assumption]| |intros _; exact E7|intros; exact I].
+    intros _ WF7 L7 Be.
+    assert (M7 : forall l, below (b_next F st) l -> below (b_next F st7) l) by (intros l Bl; eapply below_mono; [|exact Bl]; lia).
+    eapply xr_then; [apply (mul_x _ _ _ _ H6); constructor; [exact Be|repeat constructor; apply M7; assumption]| |intros _; exact E8|intros; exact I].
+    intros _ WF8 L8 Bt2.
+    assert (M8 : forall l, below (b_next F st) l -> below (b_next F st8) l) by (intros l Bl; eapply below_mono; [|exact Bl]; lia).
+    (* the last three steps do not consume t2 at once: carry its scope along *)
+    destruct (add_x _ _ _ _ _ H7 (Forall_cons _ (M8 _ B2) (Forall_cons _ (M8 _ B0) (Forall_nil _)))) as [[_ XA9] RB9].
+    split; [split|].
+    + intros _. exact E8.
+    + intros _ _. destruct (XA9 E9 WF8) as (WF9 & L9 & R9).
+      assert (M9 : forall l, below (b_next F st8) l -> below (b_next F st9) l) by (intros l Bl; eapply below_mono; [exact L9|exact Bl]).
+      destruct (mul_x _ _ _ _ H8 (Forall_cons _ (RB9 E9 WF8) (Forall_cons _ (M9 _ (M8 _ Bs1)) (Forall_nil _)))) as [[_ XA10] RB10].
+      destruct (XA10 E10 WF9) as (WF10 & L10 & R10).
+      assert (M10 : forall l, below (b_next F st8) l -> below (b_next F st10) l) by (intros l Bl; eapply below_mono; [|exact Bl]; lia).
+      destruct (add_x _ _ _ _ _ H9 (Forall_cons _ (RB10 E10 WF9) (Forall_cons _ (M10 _ Bt2) (Forall_cons _ (M10 _ (M8 _ B0)) (Forall_nil _))))) as [[_ XA11] RB11].
+      destruct (XA11 E WF10) as (WF11 & L11 & R11).
+      split; [exact WF11|split; [lia|]]. intros w G _.
+      destruct (R9 w G I) as (w9 & A9 & G9). destruct (R10 w9 G9 I) as (w10 & A10 & G10). destruct (R11 w10 G10 I) as (w11 & A11 & G11).
+      exists w11. split; [|exact G11]. eapply agree_trans; [exact L9|exact A9|]. eapply agree_trans; [exact L10|exact A10|exact A11].
+    + intros _ _. destruct (XA9 E9 WF8) as (WF9 & L9 & R9).
+      assert (M9 : forall l, below (b_next F st8) l -> below (b_next F st9) l) by (intros l Bl; eapply below_mono; [exact L9|exact Bl]).
+      destruct (mul_x _ _ _ _ H8 (Forall_cons _ (RB9 E9 WF8) (Forall_cons _ (M9 _ (M8 _ Bs1)) (Forall_nil _)))) as [[_ XA10] RB10].
+      destruct (XA10 E10 WF9) as (WF10 & L10 & R10).
+      assert (M10 : forall l, below (b_next F st8) l -> below (b_next F st10) l) by (intros l Bl; eapply below_mono; [|exact Bl]; lia).
+      destruct (add_x _ _ _ _ _ H9 (Forall_cons _ (RB10 E10 WF9) (Forall_cons _ (M10 _ Bt2) (Forall_cons _ (M10 _ (M8 _ B0)) (Forall_nil _))))) as [_ RB11].
+      apply RB11; assumption. }
+  destruct (is_const s0) as [c0|]; [|apply GEN; exact H]. destruct (is_const s1) as [c1|]; [|apply GEN; exact H].
+  injection H as <- <-. split; [exact AB|]. intros E WF. destruct AB as [_ X]. destruct (X E WF) as (_ & L & _).
+  assert (M : forall l, below (b_next F st) l -> below (b_next F st2) l) by (intros l Bl; eapply below_mono; [exact L|exact Bl]).
+  destruct (negb _ && negb _); [apply M; exact B0|]. destruct (_ && negb _); [apply M; exact B1|]. destruct (_ && _); apply M; assumption.
+Qed.
+
+Lemma xr_weaken st st' r (P Q : (nat -> F) -> Prop) : xr st st' r P -> (forall w, good w st -> Q w -> P w) -> xr st st' r Q.
+Proof. intros [X B] H. split; [eapply x_weaken; eassumption|exact B]. Qed.
+
+Lemma bools_agree n w w1 ds : Forall (below n) ds -> agree n w w1 ->
+  Forall (fun d => is_bool (ev w d)) ds -> Forall (fun d => is_bool (ev w1 d)) ds.
+Proof.
+  intros B A H. apply Forall_forall. intros d IN. eapply is_bool_agree; [exact (proj1 (Forall_forall _ _) B d IN)|exact A|exact (proj1 (Forall_forall _ _) H d IN)].
+Qed.
+
+Lemma frombinary_x ds : forall st acc c r st', b_frombinary st acc c ds = (r, st') ->
+  below (b_next F st) acc -> Forall (below (b_next F st)) ds ->
+  xr st st' r (fun w => Forall (fun d => is_bool (ev w d)) ds).
+Proof.
+  induction ds as [|d ds IH]; intros st acc c r st' H Ba Bd; cbn [BuilderR1CS.b_frombinary] in H.
+  - injection H as <- <-. apply xr_const. intros _. exact Ba.
+  - destruct (b_mul _ [cle (cst c); d]) as [m st2] eqn:M. destruct (b_add st2 [acc; m] false) as [acc' st3] eqn:A.
+    pose proof (proj1 (mul_ok _ _ _ _ M)) as X2. pose proof (proj1 (add_ok _ _ _ _ _ A)) as X3. pose proof (proj1 (frombinary_ok _ _ _ _ _ _ H)) as X4.
+    pose proof (Forall_inv Bd) as Bd0. pose proof (Forall_inv_tail Bd) as Bds.
+    pose proof (assert_bool_x st d Bd0) as AB.
+    eapply (x_xr _ _ _ _ _ _ (fun w => Forall (fun d => is_bool (ev w d)) ds)); [exact AB| |errmono|intros w _ Hw; exact (Forall_inv Hw)| ].
+    + intros E WF1 L1.
+      assert (Bds1 : Forall (below (b_next F (b_assert_bool st d))) ds).
+      { eapply Forall_impl; [|exact Bds]. intros l Bl. eapply below_mono; [exact L1|exact Bl]. }
+      eapply xr_then; [eapply xr_weaken; [apply (mul_x _ _ _ _ M); constructor; [apply below_cle; apply WF1|constructor; [bmono L1|constructor]]|intros; exact I]| |errmono| ].
+      * intros _ WF2 L2 Bm.
+        assert (Bds2 : Forall (below (b_next F st2)) ds).
+        { eapply Forall_impl; [|exact Bds1]. intros l Bl. eapply below_mono; [exact L2|exact Bl]. }
+        eapply xr_then; [eapply xr_weaken; [apply (add_x _ _ _ _ _ A); constructor; [eapply below_mono; [|exact Ba]; lia|constructor; [exact Bm|constructor]]|intros; exact I]| |errmono| ].
+        -- intros _ WF3 L3 Bacc. apply (IH _ _ _ _ _ H Bacc). eapply Forall_impl; [|exact Bds2]. intros l Bl. eapply below_mono; [exact L3|exact Bl].
+        -- intros w w1 _ P A1 _. eapply bools_agree; [exact Bds2|exact A1|exact P].
+      * intros w w1 _ P A1 _. eapply bools_agree; [exact Bds1|exact A1|exact P].
+    + intros w w1 G Hw A1 G1. eapply bools_agree; [exact Bds|exact A1|exact (Forall_inv_tail Hw)].
+Qed.
+
+(* ---------------------------------------------------------------- API calls and programs *)
+Definition det_op (k : opk) : bool := match k with ODivUnchecked | OHint2 => false | _ => true end.
+
+Lemma sem_det k a rs rs' : det_op k = true -> sem k a rs -> sem k a rs' -> rs = rs'.
+Proof.
+  destruct k; cbn [det_op sem]; intros D H H'; try discriminate D; try contradiction;
+    repeat match goal with X : _ /\ _ |- _ => destruct X end; congruence.
+Qed.
+
+Lemma arg_below st vars a : wfst st -> Forall (below (b_next F st)) vars -> below (b_next F st) (arg_le vars a).
+Proof.
+  intros WF BV. destruct a as [z|i]; cbn [BuilderR1CS.arg_le]; [apply below_cle; apply WF|].
+  destruct (Nat.lt_ge_cases i (length vars)) as [L|L].
+  - apply (proj1 (Forall_forall _ _) BV). apply nth_In. exact L.
+  - rewrite nth_overflow by exact L. apply below_cle. apply WF.
+Qed.
+
+Lemma nth_below st (a : list lexp) j : wfst st -> Forall (below (b_next F st)) a -> below (b_next F st) (nth j a le_zero).
+Proof.
+  intros WF BV. destruct (Nat.lt_ge_cases j (length a)) as [L|L].
+  - apply (proj1 (Forall_forall _ _) BV). apply nth_In. exact L.
+  - rewrite nth_overflow by exact L. apply below_cle. apply WF.
+Qed.
+
+Lemma map_ev_agree n w w' (ls : list lexp) : Forall (below n) ls -> agree n w w' -> map (ev w) ls = map (ev w') ls.
+Proof.
+  intros B A. apply map_ext_in. intros l IN. eapply ev_agree; [exact (proj1 (Forall_forall _ _) B l IN)|exact A].
+Qed.
+
+Definition step_goal (vars : list lexp) (st : bstate) (o : op) (vars' : list lexp) (st' : bstate) : Prop :=
+  (b_err F st' = false -> b_err F st = false) /\
+  (b_err F st' = false -> marks_ok st ->
+     wfst st' /\ b_next F st <= b_next F st' /\ Forall (below (b_next F st')) vars' /\ marks_ok st' /\
+     forall w rs, good w st -> sem (fst o) (map (aval (map (ev w) vars)) (snd o)) rs ->
+       exists w', agree (b_next F st) w w' /\ good w' st' /\ map (ev w') vars' = map (ev w) vars ++ rs).
+
+(* deterministic calls: extend the assignment (x-lemma), read the values off the soundness facts *)
+Lemma step_from_x vars st o news st' (PRE : (nat -> F) -> Prop) :
+  b_step (vars, st) o = (vars ++ news, st') -> wfst st -> Forall (below (b_next F st)) vars ->
+  det_op (fst o) = true ->
+  xstep st st' PRE -> (b_err F st' = false -> Forall (below (b_next F st')) news) ->
+  (forall w rs, good w st -> sem (fst o) (map (aval (map (ev w) vars)) (snd o)) rs -> PRE w) ->
+  step_goal vars st o (vars ++ news) st'.
+Proof.
+  intros S WF BV D [EM X] BN HP. pose proof (step_sound _ _ _ _ _ S) as [XE SS].
+  split; [exact EM|]. intros E M. destruct (X E WF) as (WF' & L & R). destruct (SS M) as [M' FACT].
+  split; [exact WF'|split; [exact L|]]. split; [apply Forall_app; split; [eapply Forall_impl; [|exact BV]; intros l Bl; eapply below_mono; [exact L|exact Bl]|exact (BN E)]|].
+  split; [exact M'|]. intros w rs G SEM. destruct (R w G (HP w rs G SEM)) as (w' & A & G').
+  exists w'. split; [exact A|split; [exact G'|]].
+  destruct (FACT w' G' E) as (rs' & EQ & SEM'). rewrite <- (map_ev_agree _ w w' vars BV A) in EQ, SEM'.
+  rewrite EQ. f_equal. eapply sem_det; eassumption.
+Qed.
+
+Lemma step_complete vars st o vars' st' : b_step (vars, st) o = (vars', st') -> wfst st -> Forall (below (b_next F st)) vars ->
+  step_goal vars st o vars' st'.
+Proof.
+  destruct o as [k args]. intros S WF BV. pose proof S as S0. unfold BuilderR1CS.b_step in S. cbn [fst snd] in S.
+  set (a := map (arg_le vars) args) in *.
+  assert (BA : Forall (below (b_next F st)) a).
+  { subst a. apply Forall_forall. intros l IN. apply in_map_iff in IN. destruct IN as (x & <- & _). apply arg_below; assumption. }
+  assert (BN : forall j, below (b_next F st) (nth j a le_zero)) by (intros j; apply nth_below; assumption).
+  assert (ARGS : forall w, w O = 1 -> map (aval (map (ev w) vars)) args = map (ev w) a) by (intros w G0; symmetry; apply ev_args; exact G0).
+  assert (NIL : vars = vars ++ []) by (rewrite app_nil_r; reflexivity).
+  destruct k.
+  - (* Add *) destruct (b_add st a false) as [r st1] eqn:H. injection S as <- <-. cbn [fst snd] in *.
+    destruct (add_x _ _ _ _ _ H BA) as [X B]. eapply (step_from_x vars st _ [r] st1 (fun _ => True)); try eassumption; [reflexivity|intros E; constructor; [apply B; assumption|constructor]|auto].
+  - (* Sub *) destruct (b_add st a true) as [r st1] eqn:H. injection S as <- <-. cbn [fst snd] in *.
+    destruct (add_x _ _ _ _ _ H BA) as [X B]. eapply (step_from_x vars st _ [r] st1 (fun _ => True)); try eassumption; [reflexivity|intros E; constructor; [apply B; assumption|constructor]|auto].
+  - (* Neg *) injection S as <- <-. cbn [fst snd] in *.
+    eapply (step_from_x vars st _ [b_neg st (nth 0 a le_zero)] st (fun _ => True)); try eassumption; [reflexivity|apply x_refl| |auto].
+    intros _. constructor; [|constructor]. unfold BuilderR1CS.b_neg. destruct (is_const _); [apply below_cle; apply WF|apply below_neg; apply BN].
+  - (* Mul *) destruct (b_mul st a) as [r st1] eqn:H. injection S as <- <-. cbn [fst snd] in *.
+    destruct (mul_x _ _ _ _ H BA) as [X B]. eapply (step_from_x vars st _ [r] st1 (fun _ => True)); try eassumption; [reflexivity|intros E; constructor; [apply B; assumption|constructor]|auto].
+  - (* MulAcc *) destruct (b_mulacc st _ _ _) as [r st1] eqn:H. injection S as <- <-. cbn [fst snd] in *.
+    destruct (mulacc_x _ _ _ _ _ _ H (BN O) (BN 1%nat) (BN 2%nat)) as [X B]. eapply (step_from_x vars st _ [r] st1 (fun _ => True)); try eassumption; [reflexivity|intros E; constructor; [apply B; assumption|constructor]|auto].
+  - (* Div *) destruct (BuilderR1CS.b_div _ _ _ _ _ _ st _ _) as [r st1] eqn:H. injection S as <- <-. cbn [fst snd] in *.
+    destruct (div_x _ _ _ _ _ H (BN O) (BN 1%nat)) as [X B]. eapply (step_from_x vars st _ [r] st1); try eassumption; [reflexivity|intros E; constructor; [apply B; assumption|constructor]|].
+    intros w rs G SEM. cbn [fst snd sem] in SEM. rewrite (ARGS w (proj1 G)), !nth_ev in SEM. apply SEM.
+  - (* DivUnchecked *) destruct (BuilderR1CS.b_divunchecked _ _ _ _ _ _ st _ _) as [r st1] eqn:H. injection S as <- <-. cbn [fst snd] in *.
+    pose proof (step_sound _ _ _ _ _ S0) as [XE SS].
+    split; [apply (proj1 (divunchecked_c _ _ _ _ _ 0 H (BN O) (BN 1%nat)))|]. intros E M. destruct (SS M) as [M' FACT].
+    destruct (divunchecked_c _ _ _ _ _ 0 H (BN O) (BN 1%nat)) as [_ CS0]. destruct (CS0 E WF) as (WF' & L & Br & _).
+    split; [exact WF'|split; [exact L|]]. split; [apply Forall_app; split; [eapply Forall_impl; [|exact BV]; intros l Bl; eapply below_mono; [exact L|exact Bl]|constructor; [exact Br|constructor]]|].
+    split; [exact M'|]. intros w rs G SEM. cbn [fst snd sem] in SEM. rewrite (ARGS w (proj1 G)), !nth_ev in SEM. destruct SEM as (q & -> & REL).
+    destruct (divunchecked_c _ _ _ _ _ q H (BN O) (BN 1%nat)) as [_ CS]. destruct (CS E WF) as (_ & _ & _ & R).
+    assert (PRE : ev w (nth 1 a le_zero) <> 0 \/ (ev w (nth 1 a le_zero) = 0 /\ ev w (nth 0 a le_zero) = 0)) by (destruct REL as [[NZ _]|Z]; auto).
+    destruct (R w G PRE) as (w' & A & G' & V). exists w'. split; [exact A|split; [exact G'|]].
+    rewrite map_app, <- (map_ev_agree _ w w' vars BV A). f_equal. cbn [map]. f_equal.
+    destruct (FACT w' G' E) as (rs' & EQ & SEM'). cbn [fst snd sem] in SEM'. rewrite <- (map_ev_agree _ w w' vars BV A), (ARGS w (proj1 G)), !nth_ev in SEM'.
+    destruct SEM' as (q' & -> & REL'). rewrite map_app in EQ. apply app_inv_head in EQ. cbn [map] in EQ. injection EQ as EQ. rewrite EQ.
+    destruct REL as [[NZ Q]|[Z1 Z0]].
+    + destruct REL' as [[_ Q']|[Z _]]; [congruence|contradiction].
+    + rewrite <- EQ. apply V. exact Z1.
+  - (* Inverse *) destruct (BuilderR1CS.b_inverse _ _ _ _ _ st _) as [r st1] eqn:H. injection S as <- <-. cbn [fst snd] in *.
+    destruct (inverse_x _ _ _ _ H (BN O)) as [X B]. eapply (step_from_x vars st _ [r] st1); try eassumption; [reflexivity|intros E; constructor; [apply B; assumption|constructor]|].
+    intros w rs G SEM. cbn [fst snd sem] in SEM. rewrite (ARGS w (proj1 G)), !nth_ev in SEM. apply SEM.
+  - (* ToBinary *) injection S as <- <-. split; intros E; discriminate E.
+  - (* FromBinary *) destruct (b_frombinary st _ _ a) as [r st1] eqn:H. injection S as <- <-. cbn [fst snd] in *.
+    destruct (frombinary_x _ _ _ _ _ _ H (below_cle _ _ (proj1 WF)) BA) as [X B].
+    eapply (step_from_x vars st _ [r] st1); try eassumption; [reflexivity|intros E; constructor; [apply B; assumption|constructor]|].
+    intros w rs G SEM. cbn [fst snd sem] in SEM. rewrite (ARGS w (proj1 G)) in SEM. destruct SEM as [HF _].
+    apply Forall_forall. intros d IN. apply (proj1 (Forall_forall _ _) HF). apply in_map. exact IN.
+  - (* Xor *) destruct (b_xor st _ _) as [r st1] eqn:H. injection S as <- <-. cbn [fst snd] in *.
+    destruct (xor_x _ _ _ _ _ H (BN O) (BN 1%nat)) as [X B]. eapply (step_from_x vars st _ [r] st1); try eassumption; [reflexivity|intros E; constructor; [apply B; assumption|constructor]|].
+    intros w rs G SEM. cbn [fst snd sem] in SEM. rewrite (ARGS w (proj1 G)), !nth_ev in SEM. split; apply SEM.
+  - (* Or *) destruct (b_or st _ _) as [r st1] eqn:H. injection S as <- <-. cbn [fst snd] in *.
+    destruct (or_x _ _ _ _ _ H (BN O) (BN 1%nat)) as [X B]. eapply (step_from_x vars st _ [r] st1); try eassumption; [reflexivity|intros E; constructor; [apply B; assumption|constructor]|].
+    intros w rs G SEM. cbn [fst snd sem] in SEM. rewrite (ARGS w (proj1 G)), !nth_ev in SEM. split; apply SEM.
+  - (* And *) destruct (b_and st _ _) as [r st1] eqn:H. injection S as <- <-. cbn [fst snd] in *.
+    destruct (and_x _ _ _ _ _ H (BN O) (BN 1%nat)) as [X B]. eapply (step_from_x vars st _ [r] st1); try eassumption; [reflexivity|intros E; constructor; [apply B; assumption|constructor]|].
+    intros w rs G SEM. cbn [fst snd sem] in SEM. rewrite (ARGS w (proj1 G)), !nth_ev in SEM. split; apply SEM.
+  - (* Select *) destruct (b_select st _ _ _) as [r st1] eqn:H. injection S as <- <-. cbn [fst snd] in *.
+    destruct (select_x _ _ _ _ _ _ H (BN O) (BN 1%nat) (BN 2%nat)) as [X B]. eapply (step_from_x vars st _ [r] st1); try eassumption; [reflexivity|intros E; constructor; [apply B; assumption|constructor]|].
+    intros w rs G SEM. cbn [fst snd sem] in SEM. rewrite (ARGS w (proj1 G)), !nth_ev in SEM. apply SEM.
+  - (* Lookup2 *) destruct (b_lookup2 st _ _ _ _ _ _) as [r st1] eqn:H. injection S as <- <-. cbn [fst snd] in *.
+    destruct (lookup2_x _ _ _ _ _ _ _ _ _ H (BN O) (BN 1%nat) (BN 2%nat) (BN 3%nat) (BN 4%nat) (BN 5%nat)) as [X B]. eapply (step_from_x vars st _ [r] st1); try eassumption; [reflexivity|intros E; constructor; [apply B; assumption|constructor]|].
+    intros w rs G SEM. cbn [fst snd sem] in SEM. rewrite (ARGS w (proj1 G)), !nth_ev in SEM. split; apply SEM.
+  - (* IsZero *) destruct (b_iszero st _) as [r st1] eqn:H. injection S as <- <-. cbn [fst snd] in *.
+    destruct (iszero_x _ _ _ _ H (BN O)) as [X B]. eapply (step_from_x vars st _ [r] st1 (fun _ => True)); try eassumption; [reflexivity|intros E; constructor; [apply B; assumption|constructor]|auto].
+  - (* Cmp *) injection S as <- <-. split; intros E; discriminate E.
+  - (* AssertEq *) injection S as <- <-. rewrite NIL in S0 at 2. rewrite NIL at 2.
+    eapply (step_from_x vars st _ [] _); try eassumption; [reflexivity|apply (assert_eq_x st _ _ (BN O) (BN 1%nat))|intros; constructor|].
+    intros w rs G SEM. cbn [fst snd sem] in SEM. rewrite (ARGS w (proj1 G)), !nth_ev in SEM. apply SEM.
+  - (* AssertDiff *) injection S as <- <-. rewrite NIL in S0 at 2. rewrite NIL at 2.
+    eapply (step_from_x vars st _ [] _); try eassumption; [reflexivity|apply (assert_diff_x st _ _ (BN O) (BN 1%nat))|intros; constructor|].
+    intros w rs G SEM. cbn [fst snd sem] in SEM. rewrite (ARGS w (proj1 G)), !nth_ev in SEM. apply SEM.
+  - (* AssertBool *) injection S as <- <-. rewrite NIL in S0 at 2. rewrite NIL at 2.
+    eapply (step_from_x vars st _ [] _); try eassumption; [reflexivity|apply (assert_bool_x st _ (BN O))|intros; constructor|].
+    intros w rs G SEM. cbn [fst snd sem] in SEM. rewrite (ARGS w (proj1 G)), !nth_ev in SEM. apply SEM.
+  - (* AssertLeq *) injection S as <- <-. split; intros E; discriminate E.
+  - (* Hint2 *) destruct (b_hint st _ _ 2) as [hs st1] eqn:H. injection S as <- <-.
+    pose proof (step_sound _ _ _ _ _ S0) as [XE SS].
+    destruct (hint_c _ _ _ _ _ _ [0; 0] H eq_refl WF) as (WF' & L & BH & EH & _).
+    split; [rewrite EH; auto|]. intros E M. destruct (SS M) as [M' _].
+    split; [exact WF'|split; [exact L|]]. split; [apply Forall_app; split; [eapply Forall_impl; [|exact BV]; intros l Bl; eapply below_mono; [exact L|exact Bl]|exact BH]|].
+    split; [exact M'|]. intros w rs G SEM. cbn [fst snd sem] in SEM. destruct SEM as (r0 & r1 & ->).
+    destruct (hint_c _ _ _ _ _ _ [r0; r1] H eq_refl WF) as (_ & _ & _ & _ & R). destruct (R w G) as (w' & A & G' & V).
+    exists w'. split; [exact A|split; [exact G'|]]. rewrite map_app, <- (map_ev_agree _ w w' vars BV A), V. reflexivity.
+Qed.
+
+Lemma steps_complete prog : forall vars st vars' st', fold_left b_step prog (vars, st) = (vars', st') ->
+  b_err F st' = false -> wfst st -> Forall (below (b_next F st)) vars -> marks_ok st ->
+  wfst st' /\ b_next F st <= b_next F st' /\ Forall (below (b_next F st')) vars' /\ marks_ok st' /\
+  forall w fin, good w st -> trace_sem prog (map (ev w) vars) fin ->
+    exists w', agree (b_next F st) w w' /\ good w' st' /\ map (ev w') vars' = fin.
+Proof.
+  induction prog as [|o prog IH]; intros vars st vars' st' S E WF BV M; cbn [fold_left] in S.
+  - injection S as <- <-. split; [exact WF|split; [lia|split; [exact BV|split; [exact M|]]]].
+    intros w fin G T. cbn [trace_sem] in T. exists w. split; [apply agree_refl|split; [exact G|symmetry; exact T]].
+  - destruct (b_step (vars, st) o) as [vars1 st1] eqn:S1.
+    pose proof (steps_sound _ _ _ _ _ S) as [XE _]. pose proof (ext_err _ _ XE E) as E1.
+    destruct (step_complete _ _ _ _ _ S1 WF BV) as [_ SC]. destruct (SC E1 M) as (WF1 & L1 & BV1 & M1 & R1).
+    destruct (IH _ _ _ _ S E WF1 BV1 M1) as (WF' & L' & BV' & M' & R').
+    split; [exact WF'|split; [lia|split; [exact BV'|split; [exact M'|]]]].
+    intros w fin G T. cbn [trace_sem] in T. destruct T as (rs & SEM & T).
+    destruct (R1 w rs G SEM) as (w1 & A1 & G1 & EQ1). rewrite <- EQ1 in T.
+    destruct (R' w1 fin G1 T) as (w2 & A2 & G2 & EQ2). exists w2. split; [eapply agree_trans; eassumption|split; [exact G2|exact EQ2]].
+Qed.
+
+Lemma expose_x vars nbpub outs : forall st k, wfst st -> Forall (below (b_next F st)) vars ->
+  (forall j, j < length outs -> S (nbpub + (k + j)) < b_next F st) ->
+  xstep st (b_expose vars st nbpub k outs)
+    (fun w => forall j o, nth_error outs j = Some o -> ev w (nth o vars le_zero) = w (S (nbpub + (k + j)))).
+Proof.
+  induction outs as [|o outs IH]; intros st k WF BV HO; cbn [BuilderR1CS.b_expose]; [apply x_refl|].
+  assert (Bo : below (b_next F st) (nth o vars le_zero)) by (apply nth_below; assumption).
+  assert (Bw : below (b_next F st) [(1, S (nbpub + k))]).
+  { apply below_var. specialize (HO O (Nat.lt_0_succ _)). rewrite Nat.add_0_r in HO. exact HO. }
+  pose proof (assert_eq_x st _ _ Bo Bw) as X1.
+  pose proof (expose_sound vars nbpub outs (b_assert_eq st (nth o vars le_zero) [(1, S (nbpub + k))]) (S k)) as (XE & _ & _).
+  destruct X1 as [E1 X1]. split; [intros E; apply E1; apply (ext_err _ _ XE E)|].
+  intros E _. pose proof (ext_err _ _ XE E) as E1'. destruct (X1 E1' WF) as (WF1 & L1 & R1).
+  assert (BV1 : Forall (below (b_next F (b_assert_eq st (nth o vars le_zero) [(1, S (nbpub + k))]))) vars).
+  { eapply Forall_impl; [|exact BV]. intros l Bl. eapply below_mono; [exact L1|exact Bl]. }
+  assert (HO1 : forall j, j < length outs -> S (nbpub + (S k + j)) < b_next F (b_assert_eq st (nth o vars le_zero) [(1, S (nbpub + k))])).
+  { intros j Hj. specialize (HO (S j)). cbn [length] in HO. specialize (HO (proj1 (Nat.succ_lt_mono _ _) Hj)).
+    replace (S k + j)%nat with (k + S j)%nat by lia. lia. }
+  destruct (IH _ (S k) WF1 BV1 HO1) as [_ X2]. destruct (X2 E WF1) as (WF2 & L2 & R2).
+  split; [exact WF2|split; [lia|]]. intros w G P.
+  assert (P0 : ev w (nth o vars le_zero) = ev w [(1, S (nbpub + k))]).
+  { rewrite (P O o eq_refl), ev_var, Nat.add_0_r. reflexivity. }
+  destruct (R1 w G P0) as (w1 & A1 & G1).
+  assert (P1 : forall j o', nth_error outs j = Some o' -> ev w1 (nth o' vars le_zero) = w1 (S (nbpub + (S k + j)))).
+  { intros j o' Hj. rewrite <- (ev_agree _ w w1 _ (nth_below st vars o' WF BV) A1), (P (S j) o' Hj).
+    replace (S k + j)%nat with (k + S j)%nat by lia. apply A1.
+    assert (LJ : S j < length (o :: outs)). { cbn [length]. apply (proj1 (Nat.succ_lt_mono _ _)). apply nth_error_Some. rewrite Hj. discriminate. }
+    apply (HO (S j) LJ). }
+  destruct (R2 w1 G1 P1) as (w2 & A2 & G2). exists w2. split; [eapply agree_trans; eassumption|exact G2].
+Qed.
+
+(* C04, completeness half, for every program over the modelled core: whenever the documented meaning
+   admits a value trace [fin] from the inputs [vs0] (every assertion holds) and the builder did not
+   panic, the emitted system has a satisfying assignment with these inputs whose public output
+   wires carry the documented values of the exposed variables. *)
+Theorem compile_complete nbpub nbsec thr prog outs :
+  let st := b_compile nbpub nbsec thr prog outs in
+  b_err F st = false ->
+  forall (vs0 fin : list F), length vs0 = (nbpub + nbsec)%nat -> trace_sem prog vs0 fin ->
+  exists w, good w st /\
+    (forall i, i < nbpub + nbsec -> w (input_wire nbpub (length outs) i) = nth i vs0 0) /\
+    (forall j o, nth_error outs j = Some o -> w (S (nbpub + j)) = nth o fin 0).
+Proof.
+  unfold BuilderR1CS.b_compile. destruct (b_init nbpub nbsec (length outs) thr) as [vars0 st0] eqn:I0.
+  destruct (fold_left b_step prog (vars0, st0)) as [vars st1] eqn:SF. cbn zeta. intros E vs0 fin LEN T.
+  set (nout := length outs) in *.
+  unfold BuilderR1CS.b_init in I0. injection I0 as IV IS.
+  assert (N0 : b_next F st0 = S (nbpub + nout + nbsec)) by (rewrite <- IS; reflexivity).
+  assert (WF0 : wfst st0) by (rewrite <- IS; split; [cbn; lia|constructor]).
+  assert (M0 : marks_ok st0) by (rewrite <- IS; intros _ w _ l IN; destruct IN).
+  assert (IWL : forall i, i < nbpub + nbsec -> input_wire nbpub nout i < b_next F st0).
+  { intros i Hi. rewrite N0. unfold input_wire. destruct (Nat.ltb i nbpub) eqn:Q; [apply Nat.ltb_lt in Q; lia|apply Nat.ltb_ge in Q; lia]. }
+  assert (BV0 : Forall (below (b_next F st0)) vars0).
+  { rewrite <- IV. apply Forall_forall. intros l IN. apply in_map_iff in IN. destruct IN as (i & <- & Hi). apply in_seq in Hi. apply below_var. apply IWL. lia. }
+  (* the initial assignment: ONE, public inputs, exposed values, secret inputs *)
+  set (w0 := fun x : nat =>
+     if Nat.eqb x O then 1
+     else if Nat.leb x nbpub then nth (Nat.pred x) vs0 0
+     else if Nat.leb x (nbpub + nout) then nth (nth (Nat.sub x (S nbpub)) outs O) fin 0
+     else nth (Nat.sub (Nat.pred x) nout) vs0 0).
+  assert (W0I : forall i, i < nbpub + nbsec -> w0 (input_wire nbpub nout i) = nth i vs0 0).
+  { intros i Hi. unfold w0, input_wire. destruct (Nat.ltb i nbpub) eqn:Q.
+    - apply Nat.ltb_lt in Q. cbn [Nat.eqb]. destruct (Nat.leb (S i) nbpub) eqn:Q2; [reflexivity|apply Nat.leb_gt in Q2; lia].
+    - apply Nat.ltb_ge in Q. replace (Nat.eqb (S i + nout) O) with false by (symmetry; apply Nat.eqb_neq; lia).
+      destruct (Nat.leb (S i + nout) nbpub) eqn:Q2; [apply Nat.leb_le in Q2; lia|].
+      destruct (Nat.leb (S i + nout) (nbpub + nout)) eqn:Q3; [apply Nat.leb_le in Q3; lia|].
+      f_equal. lia. }
+  assert (W0O : forall j o, nth_error outs j = Some o -> w0 (S (nbpub + j)) = nth o fin 0).
+  { intros j o Hj. assert (LJ : j < nout) by (apply nth_error_Some; rewrite Hj; discriminate).
+    unfold w0. cbn [Nat.eqb]. destruct (Nat.leb (S (nbpub + j)) nbpub) eqn:Q2; [apply Nat.leb_le in Q2; lia|].
+    destruct (Nat.leb (S (nbpub + j)) (nbpub + nout)) eqn:Q3; [|apply Nat.leb_gt in Q3; lia].
+    replace (Nat.sub (S (nbpub + j)) (S nbpub)) with j by lia. rewrite (nth_error_nth outs j O Hj). reflexivity. }
+  assert (G0 : good w0 st0) by (split; [reflexivity|rewrite <- IS; constructor]).
+  assert (V0 : map (ev w0) vars0 = vs0).
+  { rewrite <- IV, map_map. apply nth_ext with (d := 0) (d' := 0); [rewrite map_length, seq_length; symmetry; exact LEN|].
+    intros i Hi. rewrite map_length, seq_length in Hi.
+    rewrite (nth_indep _ 0 (ev w0 [(1, input_wire nbpub nout O)])) by (rewrite map_length, seq_length; exact Hi).
+    rewrite (map_nth (fun i => ev w0 [(1, input_wire nbpub nout i)]) (seq 0 (nbpub + nbsec)) O i), seq_nth by exact Hi.
+    rewrite ev_var. apply W0I. exact Hi. }
+  pose proof (expose_sound vars nbpub outs st1 O) as (XE & _ & _). pose proof (ext_err _ _ XE E) as E1.
+  destruct (steps_complete _ _ _ _ _ SF E1 WF0 BV0 M0) as (WF1 & L1 & BV1 & M1 & R1).
+  rewrite <- V0 in T. destruct (R1 w0 fin G0 T) as (w1 & A1 & G1 & EQ1).
+  assert (HO : forall j, j < length outs -> S (nbpub + (0 + j)) < b_next F st1) by (intros j Hj; fold nout in Hj; lia).
+  destruct (expose_x vars nbpub outs st1 O WF1 BV1 HO) as [_ X2]. destruct (X2 E WF1) as (WF2 & L2 & R2).
+  assert (P1 : forall j o, nth_error outs j = Some o -> ev w1 (nth o vars le_zero) = w1 (S (nbpub + (0 + j)))).
+  { intros j o Hj. assert (LJ : j < nout) by (apply nth_error_Some; rewrite Hj; discriminate).
+    rewrite <- nth_ev, EQ1. cbn [Nat.add]. rewrite <- (A1 (S (nbpub + j))) by lia. symmetry. apply (W0O j o Hj). }
+  destruct (R2 w1 G1 P1) as (w2 & A2 & G2).
+  assert (A02 : agree (b_next F st0) w0 w2) by (eapply agree_trans; eassumption).
+  exists w2. split; [exact G2|split].
+  - intros i Hi. rewrite <- (A02 _ (IWL i Hi)). apply W0I. exact Hi.
+  - intros j o Hj. assert (LJ : j < nout) by (apply nth_error_Some; rewrite Hj; discriminate).
+    rewrite <- (A02 (S (nbpub + j))) by lia. apply (W0O j o Hj).
 Qed.
 
 End BP.
